@@ -1,23 +1,28 @@
 """C15 - border and feature extraction are exact (structural clauses)."""
 from __future__ import annotations
 import ast, math
+from fractions import Fraction
 from .. import au, sym, order
 from ..core import AnalysisError
 from ..rules import c151718 as H
+from ..rules import hj_scope
+from ..rules.c151718 import Unrecognised
 
 FEAT = "processing.features"
 BORD = "processing.border"
 DET = "FeatureEdgeDetector"
+SOURCES = ("_add_hard_edges_to_features", "_add_sharp_angles_to_features", "_add_border_to_features")
 
 EXPLANATION = (
-    "Static conformance of the feature detector and of the border extraction: the condition under which each of the "
-    "three feature sources flags an edge is rebuilt from the source (enclosing tests and preceding skip-tests, local "
-    "constants folded) and compared with the specified predicate under every ordering of the dot product against the "
-    "thresholds and every truth assignment of the boolean atoms (R-ORDER); sources only ever write True, honour "
-    "only_border, are all invoked unconditionally on a freshly cleared attribute (R-MUST); both endpoints of a feature "
-    "edge reach the derived containers (R-PAIR); running offsets, component counter and visited book-keeping of the "
-    "border extraction (R-OFFSET); skeleton of the border walk.  Structural necessary conditions only: the walk "
-    "itself (that it follows border edges on every manifold surface) is not decided.")
+    "Static conformance of the feature detector and of the border extraction, read on a normal form of each function (private "
+    "helpers, closures and generators inlined; comprehensions, conditional expressions and tuple assignments expanded; local "
+    "names resolved to what they denote).  The condition under which each feature source flags an edge is rebuilt (domain of the "
+    "loop, enclosing tests, earlier skip tests, the condition of the call in run(), constants and default options folded) and "
+    "compared with the specified predicate under every ordering of the dot product against the thresholds and every truth "
+    "assignment of the boolean atoms; sources only ever write True on a freshly cleared attribute; both endpoints of a feature "
+    "edge reach the derived containers; offsets / component counter / visited book-keeping of the border extraction; skeleton and "
+    "orientation of the border walk; the extraction never mutates a container of the mesh.  A construct that is not recognised "
+    "ends `undecided`; only a recognised construct that contradicts a clause is reported.  Structural necessary conditions only.")
 
 RULES = {
     "C15-O1": "an edge is flagged by the sharp-angle source iff it is interior, only_border is off and dot(N1,N2) < cos(60deg) = 0.5; "
@@ -25,1022 +30,1703 @@ RULES = {
               "dot(N1,N2) < 0.8; N1,N2 are the normals of the two faces adjacent to that very edge; each source ranges over its whole domain",
     "C15-M1": "each feature source only ever stores True into the feature attribute and hands it back on every exit; the two "
               "non-border sources flag nothing under only_border; the border source flags every border edge unconditionally; run() "
-              "resets the containers, invokes all three sources unconditionally on the same freshly created / cleared edge attribute",
+              "resets the containers, invokes all three sources exactly once on the same freshly created / cleared edge attribute",
     "C15-P1": "both endpoints of every feature edge enter feature_vertices and get their degree incremented by exactly one; "
               "local_feat_edges[v] holds the positions, in vertex_to_edges(v), of the flagged edges; the vertex flag is set for every feature vertex",
     "C15-B1": "extract_boundary_of_surface: the new index stored for a vertex is the running offset read before its increment, one "
               "vertex appended and one increment per visited vertex, one component step per extracted cycle, both endpoints of every "
               "edge remapped; visited book-keeping of both cycle collectors: a cycle is extracted from every not yet visited border "
               "vertex and all its vertices are marked",
+    "C15-A1": "the border extraction functions only read the mesh: no container of the mesh (boundary_vertices, edges, ...) is popped, "
+              "appended to, sorted, cleared or assigned into, directly or through a local alias",
     "C15-W1": "border walk orientation: the first step leaves through the head of the sorted neighbour list and the choice loop scans forward "
               "with first match (or tail / backward), so that the chosen neighbour is joined by a border edge; skeleton: next vertex = first neighbour that is on the border and differs from the previous vertex, "
               "(previous, current) advance together, the walk stops on return to the start, each step records the vertex and the "
               "edge (previous, current), the closing edge is appended",
     "C15-G1": "quantities the detector derives from the vertex positions are recomputed on every run: an attribute the detector reuses when "
               "present (has_attribute / get_attribute) is never created persistent by the detector itself (persistent=False at the call)",
-    "C15-K1": "corner order = round(angle * corner_order / (2 pi)) of the summed corner angles of the vertex over its incident faces",
+    "C15-K1": "corner order = round(angle * corner_order / (2 pi)) of the summed corner angles of the vertex over its incident faces, the "
+              "angles being computed by corner_angles on this run",
 }
 
 
 def run(ctx):
-    o1_m1_sources(ctx)
-    m1_run(ctx)
-    p1_derived(ctx)
-    b1_boundary(ctx)
-    w1_walk(ctx)
-    k1_corners(ctx)
-    g1_geometry_cache(ctx)
+    G = H.guarded
+    calls = G(ctx, "C15-M1", FEAT, f"{DET}.run", m1_run) or {}
+    G(ctx, "C15-O1", FEAT, DET, o1_m1_sources, calls)
+    G(ctx, "C15-P1", FEAT, f"{DET}.run", p1_derived)
+    G(ctx, "C15-B1", BORD, "extract_boundary_of_surface", b1_boundary)
+    G(ctx, "C15-A1", BORD, "extract_border_cycle_all", a1_readonly)
+    G(ctx, "C15-W1", BORD, "extract_border_cycle", w1_walk)
+    G(ctx, "C15-K1", FEAT, f"{DET}._flag_corners", k1_corners)
+    G(ctx, "C15-G1", FEAT, f"{DET}.run", g1_geometry_cache)
 
 
-# =========================================================================== sources
-class Source:
-    """Facts extracted from one `_add_*_to_features(self, mesh, feature_attr)` method."""
+def _name(x):
+    return isinstance(x, ast.Name)
 
-    def __init__(self, ctx, name):
-        self.ctx, self.name = ctx, name
-        self.fn = ctx.repo.func(FEAT, f"{DET}.{name}")
-        self.site = ctx.site(FEAT, self.fn)
-        ps = au.params(self.fn, skip_self=True)
-        self.ok_sig = len(ps) >= 2
-        self.mesh, self.attr = (ps + [None, None])[:2]
-        self.b = sym.Bindings(self.fn)
-        self.stores = H.subscript_stores(self.fn, lambda x: H.is_name(x, self.attr)) if self.ok_sig else []
 
-    # -- the edge a store refers to: (index name, loop, (A, B) endpoint names, domain expr)
-    def edge_of(self, st, tgt):
-        idx = tgt.slice
-        if not isinstance(idx, ast.Name):
+def _src(x):
+    return au.src(x)
+
+
+# =========================================================================== run(): the three sources on one fresh attribute
+def _strip_sources(e):
+    while isinstance(e, ast.Call) and isinstance(e.func, ast.Attribute) and au.is_self_attr(e.func) and e.func.attr in SOURCES:
+        kw = {k.arg: k.value for k in e.keywords}
+        if len(e.args) >= 2:
+            e = e.args[1]
+        elif "feature_attr" in kw:
+            e = kw["feature_attr"]
+        else:
+            break
+    return e
+
+
+def _attr_identity(root):
+    """(container, name) of an expression whose every alternative is X.<container>.get_attribute(name) / create_attribute(name, ..)"""
+    ids = set()
+    for _, leaf in hj_scope.ifexp_leaves(root):
+        if isinstance(leaf, ast.Call) and au.call_tail(leaf) in ("get_attribute", "create_attribute") and leaf.args \
+                and isinstance(leaf.func, ast.Attribute) and isinstance(leaf.func.value, ast.Attribute) and isinstance(au.const(leaf.args[0]), str):
+            ids.add((au.src(leaf.func.value.value), leaf.func.value.attr, au.const(leaf.args[0])))
+        else:
             return None
-        e = idx.id
-        for lp in H.loop_ancestors(st, stop=self.fn):
-            if not isinstance(lp, ast.For):
-                continue
-            t = lp.target
-            if isinstance(t, ast.Tuple) and len(t.elts) == 2 and H.is_name(t.elts[0], e) \
-                    and isinstance(lp.iter, ast.Call) and au.call_tail(lp.iter) == "enumerate" and len(lp.iter.args) == 1 \
-                    and not lp.iter.keywords:
-                ends = None
-                if isinstance(t.elts[1], (ast.Tuple, ast.List)) and len(t.elts[1].elts) == 2 \
-                        and all(isinstance(x, ast.Name) for x in t.elts[1].elts):
-                    ends = tuple(x.id for x in t.elts[1].elts)
-                return {"e": e, "loop": lp, "ends": ends, "domain": lp.iter.args[0], "enum": True}
-            if H.is_name(t, e):
-                ends = None
-                for s in au.stmts(lp.body):
-                    if isinstance(s, ast.Assign) and len(s.targets) == 1 and isinstance(s.targets[0], (ast.Tuple, ast.List)) \
-                            and len(s.targets[0].elts) == 2 and all(isinstance(x, ast.Name) for x in s.targets[0].elts) \
-                            and self.is_edge_row(s.value, e):
-                        ends = tuple(x.id for x in s.targets[0].elts)
-                return {"e": e, "loop": lp, "ends": ends, "domain": lp.iter, "enum": False}
+    return ids.pop() if len(ids) == 1 else None
+
+
+def _call_condition(ctx, S, node, mesh, stop):
+    """abstracted condition (over only_border / has_hard / some_border) under which `node` of run() executes; None = not recognised"""
+    def atom(x, boolean):
+        if au.is_self_attr(x, "only_border"):
+            return H.name("only_border")
+        if isinstance(x, ast.Call) and au.call_tail(x) == "has_attribute" and len(x.args) == 1 and au.const(x.args[0]) == "hard_edges" \
+                and isinstance(x.func, ast.Attribute) and au.src(x.func.value) == f"{mesh}.edges":
+            return H.name("has_hard")
+        if boolean and au.src(x) == f"{mesh}.boundary_edges":
+            return H.name("some_border")
+        if isinstance(x, ast.Compare) and len(x.ops) == 1 and au.src(x.left) == f"len({mesh}.boundary_edges)" and au.const(x.comparators[0]) == 0:
+            if isinstance(x.ops[0], (ast.Gt, ast.NotEq)):
+                return H.name("some_border")
+            if isinstance(x.ops[0], ast.Eq):
+                return ast.UnaryOp(op=ast.Not(), operand=H.name("some_border"))
         return None
-
-    def is_edge_row(self, x, e):
-        return isinstance(x, ast.Subscript) and au.src(x.value) == f"{self.mesh}.edges" and H.is_name(x.slice, e)
-
-    def faces_of(self, info):
-        """names (T1, T2) unpacked from edge_to_faces(A, B) of the store's edge, inside the loop"""
-        if not info or not info["ends"]:
-            return None
-        for s in au.stmts(info["loop"].body):
-            if isinstance(s, ast.Assign) and len(s.targets) == 1 and isinstance(s.targets[0], (ast.Tuple, ast.List)) \
-                    and len(s.targets[0].elts) == 2 and all(isinstance(x, ast.Name) for x in s.targets[0].elts) \
-                    and isinstance(s.value, ast.Call) and au.call_tail(s.value) == "edge_to_faces" \
-                    and self.are_ends(s.value.args, info):
-                a, b = (x.id for x in s.targets[0].elts)
-                if a != b:
-                    return a, b
-        return None
-
-    def are_ends(self, args, info):
-        if len(args) == 2 and all(isinstance(a, ast.Name) for a in args):
-            return {a.id for a in args} == set(info["ends"]) and len(set(info["ends"])) == 2
-        if len(args) == 1 and isinstance(args[0], ast.Starred):
-            return self.is_edge_row(args[0].value, info["e"])
-        return False
-
-    def condition(self, st):
-        """resolved path condition of a store as [(expr, polarity)]"""
-        out = []
-        for t, pol, at in H.path_condition(st, stop=self.fn):
-            out.append((self.b.resolve(t, at=at, keep=(self.mesh, self.attr)), pol))
-        return out
-
-    def abstract(self, st, info, faces):
-        mesh = self.mesh
-        normals_base = []
-
-        def normal_index(x):
-            if isinstance(x, ast.Subscript) and au.is_self_attr(x.value) and isinstance(x.slice, ast.Name) and faces \
-                    and x.slice.id in faces:
-                normals_base.append(x.value.attr)
-                return x.slice.id
-            return None
-
-        def atom(x, boolean):
-            if au.is_self_attr(x, "only_border"):
-                return H.name("only_border")
-            if isinstance(x, ast.Call):
-                tail = au.call_tail(x)
-                if tail == "has_attribute" and len(x.args) == 1 and au.const(x.args[0]) == "hard_edges" \
-                        and isinstance(x.func, ast.Attribute) and au.src(x.func.value) == f"{mesh}.edges":
-                    return H.name("hard")
-                if tail == "is_edge_on_border" and info and info["ends"] and self.are_ends(x.args, info) and faces \
-                        and isinstance(x.func, ast.Attribute) and H.is_name(x.func.value, mesh):
-                    # an existing edge is on the border iff one of its two sides has no face (C01-O1)
-                    return ast.BoolOp(op=ast.Or(), values=[H.name("n1"), H.name("n2")])
-                if tail == "dot":
-                    ops = None
-                    if len(x.args) == 2 and not x.keywords:
-                        ops = x.args
-                    elif len(x.args) == 1 and isinstance(x.func, ast.Attribute):
-                        ops = [x.func.value, x.args[0]]
-                    if ops:
-                        i1, i2 = normal_index(ops[0]), normal_index(ops[1])
-                        if i1 and i2 and i1 != i2 and len(set(normals_base[-2:])) == 1:
-                            return H.name("dot")
-            if isinstance(x, ast.Compare) and len(x.ops) == 1 and isinstance(x.ops[0], (ast.Is, ast.IsNot)) \
-                    and isinstance(x.comparators[0], ast.Constant) and x.comparators[0].value is None \
-                    and isinstance(x.left, ast.Name) and faces and x.left.id in faces:
-                n = H.name("n1" if x.left.id == faces[0] else "n2")
-                return n if isinstance(x.ops[0], ast.Is) else ast.UnaryOp(op=ast.Not(), operand=n)
-            # emptiness test of the very container the loop ranges over: known inside the loop
-            if info is not None:
-                dom = au.norm(info["domain"])
-                if isinstance(x, ast.Compare) and len(x.ops) == 1 and isinstance(x.left, ast.Call) \
-                        and au.call_tail(x.left) == "len" and len(x.left.args) == 1 and au.norm(x.left.args[0]) == dom \
-                        and au.const(x.comparators[0]) == 0:
-                    if isinstance(x.ops[0], ast.Eq):
-                        return ast.Constant(value=False)
-                    if isinstance(x.ops[0], (ast.Gt, ast.NotEq)):
-                        return ast.Constant(value=True)
-                if boolean and au.norm(x) == dom:
-                    return ast.Constant(value=True)
-            return None
-
-        ab = H.Abstractor(atom)
-        code = ab.boolean(H.conj(self.condition(st)))
-        return code, ab.unknown, (normals_base[-1] if normals_base else None)
+    ab = H.Abs(atom)
+    code = ab.boolean(H.conj(S.conds(node, stop=stop)))
+    return None if ab.unknown else code
 
 
+def m1_run(ctx):
+    repo = ctx.repo
+    fn0 = repo.func(FEAT, f"{DET}.run")
+    site = ctx.site(FEAT, fn0)
+    fn, S, nz = H.norm_fn(ctx, FEAT, f"{DET}.run", keep=SOURCES + ("clear", "log", "warn"), public_methods=True)
+    mesh = (au.params(fn, skip_self=True) or ["mesh"])[0]
+    calls = {s: [] for s in SOURCES}
+    for c in au.calls(fn):
+        if isinstance(c.func, ast.Attribute) and au.is_self_attr(c.func) and c.func.attr in SOURCES:
+            calls[c.func.attr].append(c)
+    out = {}
+    roots = {}
+    fnames = set()
+    src_stmts = {}
+    for s in SOURCES:
+        cs = calls[s]
+        if len(cs) != 1:
+            mcls_ = repo.module(FEAT).classes[DET]
+            referenced = any((isinstance(n, ast.Attribute) and n.attr == s) or (isinstance(n, ast.Constant) and n.value == s)
+                             for f_ in mcls_.body if not (isinstance(f_, ast.FunctionDef) and f_.name == s) for n in ast.walk(f_))
+            if len(cs) == 0 and referenced:
+                ctx.undecided("C15-M1", site, f"run: the way {s} is invoked is not recognised", "")
+            else:
+                ctx.fail("C15-M1", site, f"run invokes {s} {len(cs)} time(s)", "each of the three feature sources contributes its edges exactly once")
+            out[s] = None
+            continue
+        c = cs[0]
+        st = au.enclosing_stmt(c)
+        csite = ctx.site(FEAT, fn0, c)
+        if H.loop_ancestors(c, stop=fn):
+            ctx.undecided("C15-M1", csite, f"run invokes {s} inside a loop", "")
+            out[s] = None
+            continue
+        kw = {k.arg: k.value for k in c.keywords}
+        a_mesh = c.args[0] if c.args else kw.get("mesh")
+        a_attr = c.args[1] if len(c.args) > 1 else kw.get("feature_attr")
+        if a_mesh is None or a_attr is None or not H.is_name(S.canon(a_mesh, c), mesh):
+            ctx.undecided("C15-M1", csite, f"run: arguments of {s} not recognised as (mesh, feature attribute)", "")
+            out[s] = None
+            continue
+        root = _strip_sources(S.canon(a_attr, c))
+        roots[s] = root
+        if isinstance(a_attr, ast.Name):
+            fnames.add(a_attr.id)
+        rebinds = isinstance(st, ast.Assign) and st.value is c
+        if rebinds:
+            for t in st.targets:
+                fnames.update(au.assigned_names(t))
+        src_stmts[id(st)] = s
+        cond = _call_condition(ctx, S, c, mesh, fn)
+        out[s] = {"cond": cond, "rebinds": rebinds, "site": csite}
+        if cond is None:
+            ctx.undecided("C15-M1", csite, f"run invokes {s} under a condition that is not recognised", "")
+        else:
+            ctx.ok("C15-M1", csite, f"run: {s} invoked once (its condition enters the flag condition of the source)")
+    # ---- one attribute: mesh.edges "feature"
+    idents = {s: _attr_identity(r) for s, r in roots.items()}
+    if roots:
+        if any(i is None for i in idents.values()):
+            ctx.undecided("C15-M1", site, "run: the attribute handed to the sources is not recognised as a get/create of a mesh attribute", "")
+        else:
+            bad = {s: i for s, i in idents.items() if i != (mesh, "edges", "feature")}
+            ctx.check(not bad, "C15-M1", site, "run: a source does not work on the edge attribute \"feature\" of the mesh",
+                      f"{ {s: i[1:] for s, i in bad.items()} }: the flags are published as mesh.edges['feature'] and turned into feature_edges",
+                      note="run: all sources fill mesh.edges['feature']")
+    # ---- must facts at the sources
+    nf = set()
+    for s in SOURCES:
+        try:
+            sfn, sS, _ = H.norm_fn(ctx, FEAT, f"{DET}.{s}")
+        except AnalysisError:
+            raise
+        for c in au.calls(sfn):
+            if au.call_tail(c) == "dot":
+                for n in ast.walk(sS.canon(c, c)):
+                    if isinstance(n, ast.Subscript) and au.is_self_attr(n.value):
+                        nf.add(n.value.attr)
+    nf = sorted(nf)
+    CONT = ("feature_vertices", "feature_edges", "feature_degrees", "local_feat_edges")
+    viol = []
+
+    def gen_kill(node):
+        g, k = set(), set()
+        if isinstance(node, (ast.Assign, ast.AnnAssign)) and getattr(node, "value", None) is not None:
+            v = node.value
+            for t in au.assign_targets(node):
+                if isinstance(t, ast.Name) and t.id in fnames and id(node) not in src_stmts:
+                    if isinstance(v, ast.Call) and au.call_tail(v) == "create_attribute":
+                        g.update(("fresh", "known", "nostale"))
+                    elif isinstance(v, ast.Call) and au.call_tail(v) == "get_attribute":
+                        g.add("known"); k.update(("fresh", "nostale"))
+                    elif isinstance(v, ast.Name) and v.id in fnames:
+                        pass
+                    else:
+                        k.update(("fresh", "known", "nostale"))
+                for f in nf:
+                    if au.is_self_attr(t, f):
+                        (g if not (isinstance(v, ast.Constant) and v.value is None) else k).add("normals:" + f)
+                for cn in CONT:
+                    if au.is_self_attr(t, cn):
+                        (g if H.is_empty_container(v) else k).add("reset:" + cn)
+        if isinstance(node, ast.Expr) and isinstance(node.value, ast.Call):
+            c = node.value
+            if isinstance(c.func, ast.Attribute) and c.func.attr == "clear" and not c.args:
+                if isinstance(c.func.value, ast.Name) and c.func.value.id in fnames:
+                    g.update(("fresh", "nostale"))
+                if H.is_name(c.func.value, "self"):
+                    g.add("cleared")
+                for cn in CONT:
+                    if au.is_self_attr(c.func.value, cn):
+                        g.add("reset:" + cn)
+        return g, k
+
+    def observe(state, node):
+        if id(node) in src_stmts:
+            viol.append((src_stmts[id(node)], node, state))
+
+    H.must_flow(fn.body, gen_kill, observe=observe)
+    seen = set()
+    for s, node, state in viol:
+        nsite = ctx.site(FEAT, fn0, node)
+        if "fresh" not in seen:
+            seen.add("fresh")
+            root = roots.get(s)
+            verdicts = []
+            clears = {au.src(S.canon(c.func.value, c)) for c in au.calls(fn) if au.call_tail(c) == "clear" and isinstance(c.func, ast.Attribute) and not c.args}
+            for _, leaf in (hj_scope.ifexp_leaves(root) if root is not None else []):
+                if isinstance(leaf, ast.Call) and au.call_tail(leaf) == "create_attribute":
+                    verdicts.append("ok")
+                elif isinstance(leaf, ast.Call) and au.call_tail(leaf) == "get_attribute":
+                    verdicts.append("ok" if au.src(leaf) in clears else "stale")
+                else:
+                    verdicts.append("?")
+            if verdicts and all(v == "ok" for v in verdicts):
+                ctx.ok("C15-M1", nsite, "run: the attribute handed to the sources is created, or fetched and cleared")
+            elif "stale" in verdicts:
+                ctx.fail("C15-M1", nsite, "the edge attribute 'feature' may be reused without being cleared",
+                         "flags of a previous run / of the input file survive: the detector no longer flags *exactly* the specified edges")
+            else:
+                ctx.undecided("C15-M1", nsite, "run: creation / clearing of the feature attribute before the sources is not recognised", "")
+        ok_clear = "cleared" in state or all("reset:" + cn in state for cn in CONT)
+        if ok_clear:
+            ctx.ok("C15-M1", nsite, f"run: containers reset when {s} runs")
+        elif "cleared" not in seen:
+            seen.add("cleared")
+            mcls = repo.module(FEAT).classes[DET]
+            wrappers = [f.name for f in mcls.body if isinstance(f, ast.FunctionDef) and f.name != "run"
+                        and any(au.is_self_attr(c.func, "run") for c in au.calls(f) if isinstance(c.func, ast.Attribute))
+                        and any(au.is_self_attr(c.func, "clear") for c in au.calls(f) if isinstance(c.func, ast.Attribute))]
+            if wrappers:
+                ctx.undecided("C15-M1", nsite, "run: the containers are reset by a caller of run(), not by run() itself", f"{wrappers}")
+            else:
+                ctx.fail("C15-M1", nsite, "self.clear() does not dominate the detection",
+                         "feature_edges / feature_vertices / degrees of a previous run leak into this one")
+        for f in nf:
+            if "normals:" + f in state:
+                ctx.ok("C15-M1", nsite, f"run: self.{f} set when {s} runs")
+            elif "normals:" + f not in seen:
+                seen.add("normals:" + f)
+                ctx.fail("C15-M1", nsite, f"self.{f} may be unset when the sources run",
+                         "the thresholds are applied to the face normals computed for this mesh")
+    # ---- clear() resets all containers
+    clr0 = repo.func(FEAT, f"{DET}.clear")
+    clr, cS, _ = H.norm_fn(ctx, FEAT, f"{DET}.clear")
+    reset = set()
+    for st in au.stmts(clr.body):
+        if isinstance(st, ast.Assign):
+            for t in st.targets:
+                if au.is_self_attr(t) and H.is_empty_container(cS.canon(st.value, st)) and any(st is x for x in clr.body):
+                    reset.add(t.attr)
+        if isinstance(st, ast.Expr) and isinstance(st.value, ast.Call) and au.call_tail(st.value) == "clear" \
+                and isinstance(st.value.func, ast.Attribute) and au.is_self_attr(st.value.func.value) and any(st is x for x in clr.body):
+            reset.add(st.value.func.value.attr)
+    need = set(CONT)
+    plain = all(isinstance(st, (ast.Assign, ast.Pass)) or (isinstance(st, ast.Expr) and (isinstance(st.value, ast.Constant) or (
+        isinstance(st.value, ast.Call) and au.call_tail(st.value) in ("clear", "log")))) for st in clr.body)
+    if not need <= reset and not plain:
+        ctx.undecided("C15-M1", ctx.site(FEAT, clr0), "clear(): the way the feature containers are reset is not recognised", "")
+    else:
+      ctx.check(need <= reset, "C15-M1", ctx.site(FEAT, clr0), "clear() does not reset the four feature containers",
+              f"not reset: {sorted(need - reset)}; a second run accumulates on top of the first: degrees are doubled, stale feature edges remain",
+              note="clear resets the four containers")
+    # ---- only_border comes from the constructor argument
+    ini0 = repo.func(FEAT, f"{DET}.__init__")
+    ini, iS, _ = H.norm_fn(ctx, FEAT, f"{DET}.__init__")
+    ob = [st for st in au.stmts(ini.body) if isinstance(st, ast.Assign) and any(au.is_self_attr(t, "only_border") for t in st.targets)]
+    if len(ob) != 1 or "only_border" not in au.params(ini):
+        ctx.undecided("C15-M1", ctx.site(FEAT, ini0), "__init__: the store of the option only_border is not recognised", "")
+    else:
+        v = iS.canon(ob[0].value, ob[0])
+        if isinstance(v, ast.Call) and au.call_tail(v) == "bool" and len(v.args) == 1:
+            v = v.args[0]
+        if isinstance(v, ast.Constant):
+            ctx.fail("C15-M1", ctx.site(FEAT, ini0), "self.only_border is not the constructor argument only_border", "'only the border when so configured'")
+        elif H.is_name(v, "only_border"):
+            ctx.ok("C15-M1", ctx.site(FEAT, ini0), "only_border stored from the argument")
+        elif isinstance(v, ast.Name) and v.id in au.params(ini):
+            ctx.fail("C15-M1", ctx.site(FEAT, ini0), "self.only_border is not the constructor argument only_border",
+                     "it is taken from another constructor argument: 'only the border when so configured'")
+        else:
+            ctx.undecided("C15-M1", ctx.site(FEAT, ini0), "__init__: the value stored in self.only_border is not recognised", "")
+    return out
+
+
+# =========================================================================== the three sources
 SPEC = {
     "_add_sharp_angles_to_features": ("not only_border and not n1 and not n2 and dot < 0.5",
                                       "interior edge, only_border off, dot(N1,N2) < cos(60deg) = 0.5"),
     "_add_hard_edges_to_features": ("not only_border and hard and not n1 and not n2 and dot < 0.8",
                                     "declared hard edge, not on the border, only_border off, dot(N1,N2) < 0.8"),
+    "_add_border_to_features": ("n1 or n2", "edge on the border, whatever the options"),
 }
+# an edge can only be declared hard when the attribute exists; an edge on the border implies a non-empty border
+AXIOM = "(has_hard or not hard) and (some_border or not (n1 or n2))"
 
 
-def o1_m1_sources(ctx):
-    n_o1 = n_m1 = 0
-    fl_o1, fl_m1 = H.Floor(ctx, "C15-O1"), H.Floor(ctx, "C15-M1")
-    normals_fields = set()
-    for name in ("_add_sharp_angles_to_features", "_add_hard_edges_to_features", "_add_border_to_features"):
+class Source:
+    """Facts about one `_add_*_to_features(self, mesh, feature_attr)` method, read on its normal form."""
+
+    def __init__(self, ctx, name):
+        self.ctx, self.name = ctx, name
+        self.fn0 = ctx.repo.func(FEAT, f"{DET}.{name}")
+        self.site = ctx.site(FEAT, self.fn0)
+        self.fn, self.S, self.nz = H.norm_fn(ctx, FEAT, f"{DET}.{name}")
+        ps = au.params(self.fn, skip_self=True)
+        self.ok_sig = len(ps) >= 2
+        self.mesh, self.attr = (ps + [None, None])[:2]
+        self.stores = []
+        if self.ok_sig:
+            for st, tgt, val in H.subscript_stores(self.fn, lambda x: True):
+                if H.is_name(self.S.canon(tgt.value, st), self.attr):
+                    self.stores.append((st, tgt, val))
+
+    def edge_of(self, st, tgt):
+        """how the key of a store relates to an edge: dict(e, loop, domain kind, E0, E1)   or raises Unrecognised / returns ('bad', text)"""
+        key = tgt.slice
+        mesh = self.mesh
+        kc = self.S.canon(key, st)
+        if not isinstance(key, ast.Name) or not isinstance(kc, ast.Name):
+            if (isinstance(kc, ast.Call) and au.call_tail(kc) == "direct_face") or \
+                    (isinstance(kc, ast.Subscript) and isinstance(kc.value, ast.Call) and au.call_tail(kc.value) in ("edge_to_faces", "direct_face")
+                     and isinstance(au.const(kc.slice), int)):
+                return ("bad", "the flagged index is a face of the edge, not the edge")
+            raise Unrecognised(f"{self.name}: the index that is flagged is not a loop variable")
+        e = kc.id
+        for lp in H.for_ancestors(st, stop=self.fn):
+            elem, idx, seq, start = H.loop_elem(lp)
+            seqc = self.S.canon(seq, lp)
+            s = au.src(seqc)
+            if idx == e:
+                if au.const(start) != 0:
+                    return ("bad", "the flagged index is an enumeration index that does not start at 0")
+                if s == f"{mesh}.edges":
+                    return {"e": e, "loop": lp, "kind": "all"}
+                return ("bad", f"the flagged index enumerates `{s}`, it is not an edge index")
+            if H.is_name(elem, e) and idx is None:
+                if s == f"{mesh}.id_edges" or H.is_range_len(seqc, f"{mesh}.edges"):
+                    return {"e": e, "loop": lp, "kind": "all"}
+                if s == f"{mesh}.boundary_edges":
+                    return {"e": e, "loop": lp, "kind": "border"}
+                if s == f"{mesh}.interior_edges":
+                    return {"e": e, "loop": lp, "kind": "interior"}
+                if isinstance(seqc, ast.Call) and au.call_tail(seqc) == "get_attribute" and len(seqc.args) == 1 \
+                        and au.const(seqc.args[0]) == "hard_edges" and au.src(seqc.func.value) == f"{mesh}.edges":
+                    return {"e": e, "loop": lp, "kind": "hard"}
+                raise Unrecognised(f"{self.name}: the set of edges the loop ranges over is not recognised")
+        raise Unrecognised(f"{self.name}: the loop that provides the flagged index is not recognised")
+
+    def abstract(self, st, info, call_cond):
+        mesh, e = self.mesh, info["e"]
+        E0, E1 = f"{mesh}.edges[{e}][0]", f"{mesh}.edges[{e}][1]"
+        F1 = f"{mesh}.connectivity.direct_face({E0}, {E1})"
+        F2 = f"{mesh}.connectivity.direct_face({E1}, {E0})"
+        normals = []
+
+        def face_of(x):
+            """'1' / '2' when x is <self.N>[F1] / [F2]"""
+            if isinstance(x, ast.Subscript) and au.is_self_attr(x.value):
+                s = au.src(x.slice)
+                if s in (F1, F2):
+                    normals.append(x.value.attr)
+                    return "1" if s == F1 else "2"
+            return None
+
+        def atom(x, boolean):
+            if au.is_self_attr(x, "only_border"):
+                return H.name("only_border")
+            s = au.src(x)
+            if isinstance(x, ast.Call):
+                t = au.call_tail(x)
+                if t == "has_attribute" and len(x.args) == 1 and au.const(x.args[0]) == "hard_edges" \
+                        and isinstance(x.func, ast.Attribute) and au.src(x.func.value) == f"{mesh}.edges":
+                    return H.name("has_hard")
+                if t == "is_edge_on_border" and isinstance(x.func, ast.Attribute) and H.is_name(x.func.value, mesh) and len(x.args) == 2 \
+                        and {au.src(a) for a in x.args} == {E0, E1}:
+                    # an existing edge is on the border iff one of its two sides has no face (C01-O1)
+                    return ast.BoolOp(op=ast.Or(), values=[H.name("n1"), H.name("n2")])
+                if t == "dot" and not x.keywords:
+                    ops = list(x.args) if len(x.args) == 2 else ([x.func.value, x.args[0]] if len(x.args) == 1 and isinstance(x.func, ast.Attribute) else None)
+                    if ops:
+                        a, b = face_of(ops[0]), face_of(ops[1])
+                        if a and b and a != b and len(set(normals[-2:])) == 1:
+                            return H.name("dot")
+                        if a and b and a == b:
+                            return ast.Constant(value=1)      # a unit normal dotted with itself
+            if isinstance(x, ast.Compare) and len(x.ops) == 1 and isinstance(x.ops[0], (ast.Is, ast.IsNot)) \
+                    and isinstance(x.comparators[0], ast.Constant) and x.comparators[0].value is None and au.src(x.left) in (F1, F2):
+                n = H.name("n1" if au.src(x.left) == F1 else "n2")
+                return n if isinstance(x.ops[0], ast.Is) else ast.UnaryOp(op=ast.Not(), operand=n)
+            if isinstance(x, ast.Compare) and len(x.ops) == 1 and isinstance(x.ops[0], (ast.In, ast.NotIn)) and H.is_name(x.left, e):
+                c = au.src(x.comparators[0])
+                r = None
+                if c == f"{mesh}.boundary_edges":
+                    r = ast.BoolOp(op=ast.Or(), values=[H.name("n1"), H.name("n2")])
+                elif c == f"{mesh}.interior_edges":
+                    r = ast.UnaryOp(op=ast.Not(), operand=ast.BoolOp(op=ast.Or(), values=[H.name("n1"), H.name("n2")]))
+                if r is not None:
+                    return r if isinstance(x.ops[0], ast.In) else ast.UnaryOp(op=ast.Not(), operand=r)
+            # emptiness of the border
+            if boolean and s == f"{mesh}.boundary_edges":
+                return H.name("some_border")
+            if isinstance(x, ast.Compare) and len(x.ops) == 1 and au.src(x.left) == f"len({mesh}.boundary_edges)" and au.const(x.comparators[0]) == 0:
+                if isinstance(x.ops[0], (ast.Gt, ast.NotEq)):
+                    return H.name("some_border")
+                if isinstance(x.ops[0], ast.Eq):
+                    return ast.UnaryOp(op=ast.Not(), operand=H.name("some_border"))
+            # emptiness test of the very container the loop ranges over: known inside the loop
+            _, _, seq, _ = H.loop_elem(info["loop"])
+            dom = au.src(self.S.canon(seq, info["loop"]))
+            if isinstance(x, ast.Compare) and len(x.ops) == 1 and au.src(x.left) == f"len({dom})" and au.const(x.comparators[0]) == 0:
+                if isinstance(x.ops[0], ast.Eq):
+                    return ast.Constant(value=False)
+                if isinstance(x.ops[0], (ast.Gt, ast.NotEq)):
+                    return ast.Constant(value=True)
+            if boolean and s == dom:
+                return ast.Constant(value=True)
+            return None
+
+        ab = H.Abs(atom, self.ctx.repo, FEAT, DET)
+        conds = self.S.conds(st, stop=self.fn)
+        code = ab.boolean(H.conj(conds))
+        in_dom = {"all": ast.Constant(value=True),
+                  "border": ast.BoolOp(op=ast.Or(), values=[H.name("n1"), H.name("n2")]),
+                  "interior": ast.UnaryOp(op=ast.Not(), operand=ast.BoolOp(op=ast.Or(), values=[H.name("n1"), H.name("n2")])),
+                  "hard": H.name("hard")}[info["kind"]]
+        parts = [in_dom, code] + ([call_cond] if call_cond is not None else [])
+        return ast.BoolOp(op=ast.And(), values=parts), ab.unknown, (normals[-1] if normals else None), conds
+
+
+def _truth_operands(test):
+    if isinstance(test, ast.UnaryOp) and isinstance(test.op, ast.Not):
+        return _truth_operands(test.operand)
+    if isinstance(test, ast.BoolOp):
+        return [x for v in test.values for x in _truth_operands(v)]
+    return [test]
+
+
+def o1_m1_sources(ctx, calls):
+    for name in SOURCES:
         S = Source(ctx, name)
+        rule_o = "C15-M1" if name == "_add_border_to_features" else "C15-O1"
+        call = calls.get(name)
         if not S.ok_sig:
-            ctx.fail("C15-M1", S.site, f"{name} does not take (mesh, feature_attr)", "run() hands the edge attribute to every source")
+            ctx.undecided("C15-M1", S.site, f"{name}: parameters (mesh, feature attribute) not recognised", "")
             continue
         if not S.stores:
-            ctx.fail("C15-M1", S.site, f"{name}: store into the feature attribute not found",
-                     "the source no longer flags anything: its class of feature edges is lost")
+            touched = any(isinstance(n, ast.Name) and n.id == S.attr and not isinstance(au.parent(n), ast.Return) for n in au.walk(S.fn.body))
+            if touched:
+                ctx.undecided("C15-M1", S.site, f"{name}: no store `feature_attr[e] = ...` recognised", "the attribute is used in a way the rule does not read")
+            else:
+                ctx.fail("C15-M1", S.site, f"{name} never writes into the feature attribute",
+                         "the source no longer flags anything: its class of feature edges is lost")
             continue
         # ---- M1: only True is ever written, nothing is removed
         for st, tgt, val in S.stores:
-            n_m1 += 1
-            ctx.check(isinstance(st, ast.Assign) and au.const(val) is True, "C15-M1", ctx.site(FEAT, S.fn, st),
-                      f"{name} stores something else than True into the feature attribute",
-                      "a source that writes False / a computed value un-flags edges found by the sources run before it",
-                      note=f"{name}: stores True")
+            ssite = ctx.site(FEAT, S.fn0, st)
+            v = S.S.canon(val, st) if val is not None else None
+            if isinstance(st, ast.Assign) and au.const(v) is True:
+                ctx.ok("C15-M1", ssite, f"{name}: stores True")
+                continue
+            pos = [au.norm(t) for t, p in S.S.conds(st, stop=S.fn) if p]
+            if isinstance(st, ast.Assign) and v is not None and au.norm(v) in pos:
+                ctx.ok("C15-M1", ssite, f"{name}: stores a value that is true on this path")
+                continue
+            what = "False" if au.const(v) is False else ("a computed value" if v is not None else "an augmented value")
+            ctx.fail("C15-M1", ssite, f"{name} stores something else than True into the feature attribute",
+                     f"stores {what}: a source that writes False / a computed value un-flags edges found by the sources run before it")
         bad_use = []
         for n in au.walk(S.fn):
-            if isinstance(n, ast.Call) and isinstance(n.func, ast.Attribute) and H.is_name(n.func.value, S.attr) \
-                    and n.func.attr in ("clear", "pop", "remove", "popitem", "update", "fill", "empty"):
+            if isinstance(n, ast.Call) and isinstance(n.func, ast.Attribute) and n.func.attr in ("clear", "pop", "remove", "popitem", "fill", "empty") \
+                    and H.is_name(S.S.canon(n.func.value, n), S.attr):
                 bad_use.append(n.func.attr)
-            if isinstance(n, ast.Delete) and any(isinstance(t, ast.Subscript) and H.is_name(t.value, S.attr) for t in n.targets):
+            if isinstance(n, ast.Delete) and any(isinstance(t, ast.Subscript) and H.is_name(S.S.canon(t.value, n), S.attr) for t in n.targets):
                 bad_use.append("del")
-            if isinstance(n, (ast.Assign, ast.AugAssign, ast.AnnAssign)) and any(
-                    H.is_name(t, S.attr) for t in au.assign_targets(n)):
+            if isinstance(n, (ast.Assign, ast.AugAssign, ast.AnnAssign)) and any(H.is_name(t, S.attr) for t in au.assign_targets(n)):
                 bad_use.append("rebinding")
-        n_m1 += 1
         ctx.check(not bad_use, "C15-M1", S.site, f"{name} removes flags / rebinds the feature attribute ({', '.join(sorted(set(bad_use)))})",
                   "flags written by the other sources are lost", note=f"{name}: attribute only receives stores")
-        # every exit hands the attribute back (run rebinds its variable to the result)
-        rets = [n for n in au.walk(S.fn) if isinstance(n, ast.Return)]
-        bad_ret = [r for r in rets if not H.is_name(r.value, S.attr)]
-        falls = not H.terminates(S.fn.body)
-        n_m1 += 1
-        ctx.check(not bad_ret and not falls and bool(rets), "C15-M1", S.site,
-                  f"{name} does not return the feature attribute on every exit",
-                  "run() rebinds its attribute variable to the result of each source: a bare return makes the next source fail / lose the flags",
-                  note=f"{name}: {len(rets)} exits return the attribute")
-
-        if name == "_add_border_to_features":
-            for st, tgt, val in S.stores:
-                info = S.edge_of(st, tgt)
-                site = ctx.site(FEAT, S.fn, st)
-                dom_ok = info is not None and au.src(info["domain"]) == f"{S.mesh}.boundary_edges" and not info["enum"]
-                n_m1 += 1
-                ctx.check(dom_ok, "C15-M1", site, "border source does not range over mesh.boundary_edges with the flagged index as loop variable",
-                          "every border edge is a feature edge", note="border source ranges over mesh.boundary_edges")
-                code, unknown, _ = S.abstract(st, info, None)
-                try:
-                    wit, n = H.compare(code, "True")
-                except order.Unsupported as ex:
-                    wit, n = {"unsupported": str(ex)}, 0
-                n_m1 += 1
-                ctx.check(wit is None, "C15-M1", site, "border edge flagged only conditionally",
-                          f"border edges are features whatever the options; not flagged when {H.fmt_env(wit) if wit else ''} "
-                          f"(conditions: {unknown})", note=f"border store unconditional ({n} assignments)")
-            continue
-
+        # ---- every exit hands the attribute back (when run rebinds its variable to the result)
+        if call is None or call["rebinds"]:
+            rets = [n for n in au.walk(S.fn) if isinstance(n, ast.Return)]
+            bad_ret = [r for r in rets if r.value is None or not H.is_name(S.S.canon(r.value, r), S.attr)]
+            none_ret = [r for r in bad_ret if r.value is None or (isinstance(r.value, ast.Constant) and r.value.value is None)]
+            falls = not H.terminates(S.fn.body)
+            if falls or none_ret:
+                ctx.fail("C15-M1", S.site, f"{name} does not return the feature attribute on every exit",
+                         "run() rebinds its attribute variable to the result of each source: a bare return makes the next source fail / lose the flags")
+            elif bad_ret:
+                ctx.undecided("C15-M1", S.site, f"{name}: a returned value is not recognised as the feature attribute", "")
+            else:
+                ctx.ok("C15-M1", S.site, f"{name}: {len(rets)} exits return the attribute")
+        # ---- flag condition
         spec, text = SPEC[name]
         for st, tgt, val in S.stores:
-            site = ctx.site(FEAT, S.fn, st)
-            info = S.edge_of(st, tgt)
-            faces = S.faces_of(info)
-            if info is None or not info["ends"] or not faces:
-                ctx.fail("C15-O1", site, f"{name}: the flagged index is not the edge whose endpoints are given to edge_to_faces",
-                         "the dot product must compare the normals of the two faces adjacent to the edge that is flagged")
-                n_o1 += 1
+            ssite = ctx.site(FEAT, S.fn0, st)
+            try:
+                info = S.edge_of(st, tgt)
+            except Unrecognised as u:
+                H.undecided(ctx, rule_o, ssite, u)
                 continue
-            code, unknown, nfield = S.abstract(st, info, faces)
-            if nfield:
-                normals_fields.add(nfield)
-            # domain
-            if name == "_add_sharp_angles_to_features":
-                d = au.src(info["domain"])
-                dom_ok = (info["enum"] and d == f"{S.mesh}.edges") or (not info["enum"] and d in (
-                    f"{S.mesh}.id_edges", f"range(len({S.mesh}.edges))"))
-                what = "every edge of the mesh is a candidate sharp edge"
-            else:
-                dcall = info["domain"]
-                dom_ok = not info["enum"] and isinstance(dcall, ast.Call) and au.call_tail(dcall) == "get_attribute" \
-                    and len(dcall.args) == 1 and au.const(dcall.args[0]) == "hard_edges" \
-                    and au.src(dcall.func.value) == f"{S.mesh}.edges"
-                what = "the candidates are the edges declared in the 'hard_edges' attribute"
-            n_o1 += 1
-            ctx.check(dom_ok, "C15-O1", site, f"{name} does not range over its whole candidate domain",
-                      what + f"; found `{au.src(info['domain'])}`" + (" (enumerated)" if info["enum"] else ""),
-                      note=f"{name}: candidate domain")
-            n_o1 += 1
+            if isinstance(info, tuple):
+                ctx.fail(rule_o, ssite, f"{name}: {info[1]}", "the flag must be set on the edge whose two adjacent faces are compared")
+                continue
+            if call is None or call["cond"] is None:
+                # the call in run() is missing / unreadable: reported there
+                continue
+            code, unknown, nfield, conds = S.abstract(st, info, call["cond"])
+            truthy = None
+            for t, p in conds:
+                for op in _truth_operands(t):
+                    cands = [op]
+                    if isinstance(op, ast.Call) and au.call_tail(op) in ("all", "any") and len(op.args) == 1:
+                        a = op.args[0]
+                        cands = list(a.elts) if isinstance(a, (ast.Tuple, ast.List)) else [a]
+                    for l in cands:
+                        if isinstance(l, ast.Call) and au.call_tail(l) in ("direct_face", "face_id", "edge_id") and len(l.args) <= 2:
+                            truthy = l
+                        if isinstance(l, ast.Call) and au.call_tail(l) == "edge_to_faces" and l is not op:
+                            truthy = l
+            if truthy is not None:
+                ctx.fail(rule_o, ssite, f"{name}: a face index is tested for truth",
+                         f"`{au.src(truthy)[:70]}` is a face index or None: face 0 is falsy, so the edges adjacent to face 0 are treated as border edges")
+                continue
             if unknown:
-                ctx.fail("C15-O1", site, f"{name}: unrecognised condition on the flag",
-                         f"flag must be set iff {text}; the store is additionally conditioned by {unknown}")
+                ctx.undecided(rule_o, ssite, f"{name}: a condition on the flag is not recognised",
+                              f"flag must be set iff {text}; unrecognised: {unknown}")
                 continue
             try:
-                wit, n = H.compare(code, spec)
+                wit, n = H.compare_under(code, spec, AXIOM)
             except order.Unsupported as ex:
-                ctx.fail("C15-O1", site, f"{name}: flag condition not a comparison predicate", str(ex))
+                ctx.undecided(rule_o, ssite, f"{name}: flag condition is not a comparison predicate", str(ex))
                 continue
-            ctx.check(wit is None, "C15-O1", site, f"{name}: flag condition differs from the specification",
-                      f"flag must be set iff {text}; code `{au.src(code)}` differs for {H.fmt_env(wit) if wit else ''} "
+            if name == "_add_border_to_features":
+                ctx.check(wit is None, "C15-M1", ssite, "border edge flagged only conditionally / not every border edge is flagged",
+                          f"border edges are features whatever the options; differs when {H.fmt_env(wit) if wit else ''}",
+                          note=f"border source flags exactly the border edges ({n} assignments)")
+                continue
+            ctx.check(wit is None, "C15-O1", ssite, f"{name}: flag condition differs from the specification",
+                      f"flag must be set iff {text}; the code differs for {H.fmt_env(wit) if wit else ''} "
                       f"(n1/n2 = side 1/2 of the edge has no face)",
                       note=f"{name}: {n} orderings/assignments agree with `{spec}`")
-            # M1: nothing flagged under only_border
-            n_m1 += 1
-            w2, n2 = H.compare(ast.BoolOp(op=ast.And(), values=[code, H.name("only_border")]), "False")
-            ctx.check(w2 is None, "C15-M1", site, f"{name} flags edges although only_border is set",
+            w2, n2 = H.compare_under(ast.BoolOp(op=ast.And(), values=[code, H.name("only_border")]), "False", AXIOM)
+            ctx.check(w2 is None, "C15-M1", ssite, f"{name} flags edges although only_border is set",
                       f"with only_border=True only border edges are features; flagged when {H.fmt_env(w2) if w2 else ''}",
                       note=f"{name}: silent under only_border")
-    fl_o1.require(4, "C15-O1 threshold / domain obligations")
-    fl_m1.require(13, "C15-M1 source obligations")
-    ctx._c15_normals_fields = normals_fields
-
-
-# =========================================================================== run()
-def m1_run(ctx):
-    repo = ctx.repo
-    fn = repo.func(FEAT, f"{DET}.run")
-    site = ctx.site(FEAT, fn)
-    fl = H.Floor(ctx, "C15-M1")
-    ps = au.params(fn, skip_self=True)
-    mesh = ps[0] if ps else "mesh"
-    srcs = ("_add_hard_edges_to_features", "_add_sharp_angles_to_features", "_add_border_to_features")
-    calls = {}
-    for c in au.calls(fn):
-        if isinstance(c.func, ast.Attribute) and au.is_self_attr(c.func) and c.func.attr in srcs:
-            calls.setdefault(c.func.attr, []).append(c)
-    # the consumer loop: for e in F: ... self.feature_edges.add(e)
-    consumer = None
-    for st in au.stmts(fn.body):
-        if isinstance(st, ast.For) and isinstance(st.iter, ast.Name) and isinstance(st.target, ast.Name):
-            if any(au.call_tail(c) == "add" and au.is_self_attr(c.func.value, "feature_edges") and c.args
-                   and H.is_name(c.args[0], st.target.id) for c in au.calls(st) if isinstance(c.func, ast.Attribute)):
-                consumer = st
-    if consumer is None:
-        ctx.fail("C15-M1", site, "run: loop `for e in <feature attribute>: self.feature_edges.add(e)` not found",
-                 "the feature edge set is the set of flagged edges")
-        return
-    F = consumer.iter.id
-    n = 0
-    for s in srcs:
-        cs = calls.get(s, [])
-        n += 1
-        if len(cs) != 1:
-            ctx.fail("C15-M1", site, f"run invokes {s} {len(cs)} time(s)", "each of the three feature sources contributes its edges exactly once")
-            continue
-        c = cs[0]
-        st = au.enclosing_stmt(c)
-        cond = H.path_condition(c, stop=fn)
-        args_ok = len(c.args) == 2 and H.is_name(c.args[0], mesh) and H.is_name(c.args[1], F) and not c.keywords
-        form_ok = (isinstance(st, ast.Expr) and st.value is c) or (
-            isinstance(st, ast.Assign) and st.value is c and len(st.targets) == 1 and H.is_name(st.targets[0], F))
-        before = st.lineno < consumer.lineno and H.in_same_block(st, consumer)
-        ctx.check(not cond and args_ok and form_ok and before, "C15-M1", ctx.site(FEAT, fn, c),
-                  f"run does not invoke {s}(mesh, {F}) unconditionally before the containers are built",
-                  "all three sources must run on the one edge attribute that is turned into feature_edges",
-                  note=f"run: {s} unconditional on `{F}`")
-    # must facts: containers cleared, attribute fresh, normals set
-    nf = sorted(getattr(ctx, "_c15_normals_fields", set()) or {"fnormals"})
-    viol = []
-    src_stmts = {id(au.enclosing_stmt(cs[0])): s for s, cs in calls.items() if len(cs) == 1}
-
-    def gen_kill(node):
-        g, k = set(), set()
-        if isinstance(node, (ast.Assign, ast.AnnAssign)):
-            v = node.value
-            for t in au.assign_targets(node):
-                if H.is_name(t, F) and id(node) not in src_stmts:
-                    if isinstance(v, ast.Call) and au.call_tail(v) == "create_attribute":
-                        g.add("fresh")
-                    else:
-                        k.add("fresh")
-                for f in nf:
-                    if au.is_self_attr(t, f):
-                        (g if not (isinstance(v, ast.Constant) and v.value is None) else k).add("normals:" + f)
-        if isinstance(node, ast.Expr) and isinstance(node.value, ast.Call):
-            c = node.value
-            if isinstance(c.func, ast.Attribute) and c.func.attr == "clear":
-                if H.is_name(c.func.value, F):
-                    g.add("fresh")
-                if H.is_name(c.func.value, "self"):
-                    g.add("cleared")
-        return g, k
-
-    def observe(state, node):
-        if id(node) in src_stmts:
-            for need in ["fresh", "cleared"] + ["normals:" + f for f in nf]:
-                if need not in state:
-                    viol.append((need, src_stmts[id(node)], node))
-
-    H.must_flow(fn.body, gen_kill, observe=observe)
-    msgs = {"fresh": ("the edge attribute 'feature' may be reused without being cleared",
-                      "flags of a previous run / of the input file survive: the detector no longer flags *exactly* the specified edges"),
-            "cleared": ("self.clear() does not dominate the detection",
-                        "feature_edges / feature_vertices / degrees of a previous run leak into this one")}
-    seen = set()
-    for need, s, node in viol:
-        if need in seen:
-            continue
-        seen.add(need)
-        if need.startswith("normals:"):
-            ctx.fail("C15-M1", ctx.site(FEAT, fn, node), f"self.{need[8:]} may be unset when the sources run",
-                     "the thresholds are applied to the face normals computed for this mesh")
-        else:
-            ctx.fail("C15-M1", ctx.site(FEAT, fn, node), msgs[need][0], msgs[need][1])
-    for need in ["fresh", "cleared"] + ["normals:" + f for f in nf]:
-        n += 1
-        if need not in seen:
-            ctx.ok("C15-M1", site, f"run: `{need}` holds on every path reaching the sources")
-    # the attribute is the edge attribute "feature"
-    defs = [st for st in au.stmts(fn.body) if isinstance(st, ast.Assign) and any(H.is_name(t, F) for t in st.targets)
-            and id(st) not in src_stmts]
-    okd = bool(defs) and all(isinstance(d.value, ast.Call) and au.call_tail(d.value) in ("get_attribute", "create_attribute")
-                             and au.src(d.value.func.value) == f"{mesh}.edges" and d.value.args
-                             and au.const(d.value.args[0]) == "feature" for d in defs)
-    n += 1
-    ctx.check(okd, "C15-M1", site, f"run: `{F}` is not the edge attribute \"feature\" of the mesh",
-              "the flags are published as mesh.edges 'feature'", note="run: attribute is mesh.edges['feature']")
-    # clear() resets all containers; only_border comes from the constructor argument
-    clr = repo.func(FEAT, f"{DET}.clear")
-    reset = {t.attr for st in clr.body if isinstance(st, (ast.Assign, ast.AnnAssign)) for t in au.assign_targets(st)
-             if au.is_self_attr(t) and isinstance(st.value, ast.Call) and not st.value.args
-             and au.call_tail(st.value) in ("set", "dict") or
-             (au.is_self_attr(t) and isinstance(st.value, ast.Call) and au.call_tail(st.value) == "Attribute")}
-    need = {"feature_vertices", "feature_edges", "feature_degrees", "local_feat_edges"}
-    n += 1
-    ctx.check(need <= reset, "C15-M1", ctx.site(FEAT, clr), "clear() does not reset the four feature containers",
-              f"not reset: {sorted(need - reset)}; a second run accumulates on top of the first: degrees are doubled, stale feature edges remain",
-              note="clear resets the four containers")
-    ini = repo.func(FEAT, f"{DET}.__init__")
-    ob = [st for st in au.stmts(ini.body) if isinstance(st, (ast.Assign, ast.AnnAssign))
-          and any(au.is_self_attr(t, "only_border") for t in au.assign_targets(st))]
-    n += 1
-    ctx.check(len(ob) == 1 and H.is_name(ob[0].value, "only_border") and "only_border" in au.params(ini),
-              "C15-M1", ctx.site(FEAT, ini), "self.only_border is not the constructor argument only_border",
-              "'only the border when so configured'", note="only_border stored from the argument")
-    fl.require(9, "C15-M1 run obligations")
 
 
 # =========================================================================== derived containers
-def _unpack_ends(body, mesh, e):
-    """names (A, B) from `A, B = mesh.edges[e]` among the direct statements of body"""
-    for s in body:
-        if isinstance(s, ast.Assign) and len(s.targets) == 1 and isinstance(s.targets[0], (ast.Tuple, ast.List)) \
-                and len(s.targets[0].elts) == 2 and all(isinstance(x, ast.Name) for x in s.targets[0].elts) \
-                and isinstance(s.value, ast.Subscript) and au.src(s.value.value) == f"{mesh}.edges" and H.is_name(s.value.slice, e):
-            return tuple(x.id for x in s.targets[0].elts), s
-    return None, None
+def _top_pos(fn, node):
+    t = H.top_stmt_in(fn.body, node)
+    return None if t is None else H.block_pos(t)
 
 
 def p1_derived(ctx):
-    fn = ctx.repo.func(FEAT, f"{DET}.run")
-    site = ctx.site(FEAT, fn)
+    fn0 = ctx.repo.func(FEAT, f"{DET}.run")
+    site = ctx.site(FEAT, fn0)
+    fn, S, nz = H.norm_fn(ctx, FEAT, f"{DET}.run", keep=SOURCES + ("clear", "log", "warn", "_flag_corners", "_compute_feature_graph", "_compute_corner_point_cloud"),
+                          public_methods=True)
     mesh = (au.params(fn, skip_self=True) or ["mesh"])[0]
-    n = 0
-    fl = H.Floor(ctx, "C15-P1")
-    # (a) set containers
-    consumer = F = None
-    for st in au.stmts(fn.body):
-        if isinstance(st, ast.For) and isinstance(st.target, ast.Name):
-            adds = [c for c in au.calls(st) if isinstance(c.func, ast.Attribute) and c.func.attr == "add"
-                    and au.is_self_attr(c.func.value, "feature_edges")]
-            if adds:
-                consumer = st
-    if consumer is None:
-        ctx.fail("C15-P1", site, "run: loop filling self.feature_edges not found", "")
+
+    def is_feature_attr(e, at):
+        """e denotes the edge attribute filled by the sources"""
+        r = _strip_sources(S.canon(e, at))
+        return _attr_identity(r) == (mesh, "edges", "feature")
+
+    def domain_kind(lp):
+        """'F' (the flagged edges of the attribute) | 'FE' (self.feature_edges) | 'FV' (self.feature_vertices) | None"""
+        elem, idx, seq, start = H.loop_elem(lp)
+        sc = S.canon(seq, lp)
+        if idx is not None and isinstance(elem, (ast.Tuple, ast.List)) and au.src(sc) == f"{mesh}.edges" and au.const(start) == 0:
+            return "ALL", idx
+        if idx is not None or not isinstance(elem, ast.Name):
+            return None, None
+        if au.src(sc) in (f"{mesh}.id_edges", f"{mesh}.boundary_edges", f"{mesh}.interior_edges") or H.is_range_len(sc, f"{mesh}.edges"):
+            return "ALL", elem.id
+        if au.is_self_attr(S.canon(seq, lp), "feature_edges"):
+            return "FE", elem.id
+        if au.is_self_attr(S.canon(seq, lp), "feature_vertices"):
+            return "FV", elem.id
+        if is_feature_attr(seq, lp):
+            return "F", elem.id
+        return None, None
+
+    def flagged_guard_only(node, lp, e, need=False):
+        """the path condition of node inside lp is empty or only `feature[e]` (true for every key, sources only store True);
+        with need=True the guard `feature[e]` must be present (loop over a superset of the flagged edges)"""
+        n = 0
+        for t0, p0, at in H.path_condition(node, stop=lp):
+            t1, p1 = au.strip_not(t0, p0)
+            if not (isinstance(t1, ast.Subscript) and H.is_name(t1.slice, e) and is_feature_attr(t1.value, at) and p1):
+                return False
+            n += 1
+        return n > 0 or not need
+
+    def edge_domain(node, lp):
+        """'F' / 'FE' when node runs once per flagged edge, 'ALL' when it runs for edges that are not flagged, None: not recognised"""
+        kind, e = domain_kind(lp) if lp is not None else (None, None)
+        if kind == "ALL":
+            if flagged_guard_only(node, lp, e, need=True):
+                return "F", e
+            return ("ALL", e) if not H.path_condition(node, stop=lp) else (None, e)
+        if kind in ("F", "FE") and flagged_guard_only(node, lp, e):
+            return kind, e
+        return None, e
+
+    def endpoints_of(arg, at, e, lps):
+        """set of endpoint indices {'0', '1'} of edge e that `arg` stands for ('0' / '1' / both for the whole pair or its loop variable)"""
+        a = au.src(S.canon(arg, at))
+        if a in (f"{mesh}.edges[{e}][0]", f"{mesh}.edges[{e}][1]"):
+            return {a[-2]}
+        if a == f"{mesh}.edges[{e}]":
+            return {"0", "1"}
+        if isinstance(arg, ast.Name):
+            for l in lps:
+                if H.is_name(l.target, arg.id) and au.src(S.canon(l.iter, l)) == f"{mesh}.edges[{e}]" and not H.path_condition(at, stop=l):
+                    return {"0", "1"}
+        return None
+
+    def edge_loop(node):
+        """(outermost loop over edges, inner loops) of node"""
+        lps = H.for_ancestors(node, stop=fn)
+        for i, l in enumerate(lps):
+            if domain_kind(l)[0] in ("F", "FE", "ALL"):
+                return l, lps[:i]
+        return (lps[0] if lps else None), []
+
+    # ---- (a) set containers
+    events = {"feature_edges": [], "feature_vertices": []}
+    for c in au.calls(fn):
+        if au.call_tail(c) in ("add", "update") and isinstance(c.func, ast.Attribute) and len(c.args) == 1:
+            r = S.canon(c.func.value, c)
+            for cn in events:
+                if au.is_self_attr(r, cn):
+                    events[cn].append((c, edge_loop(c)[0]))
+    fe_fill = None
+    if not events["feature_edges"]:
+        ctx.undecided("C15-P1", site, "run: the statement filling self.feature_edges is not recognised", "")
     else:
-        e = consumer.target.id
-        ends, ust = _unpack_ends(consumer.body, mesh, e)
-        if isinstance(consumer.iter, ast.Name):
-            F = consumer.iter.id
-        vadds = [c for c in au.calls(consumer) if isinstance(c.func, ast.Attribute) and c.func.attr == "add"
-                 and au.is_self_attr(c.func.value, "feature_vertices") and len(c.args) == 1]
-        vupd = [c for c in au.calls(consumer) if isinstance(c.func, ast.Attribute) and c.func.attr == "update"
-                and au.is_self_attr(c.func.value, "feature_vertices") and len(c.args) == 1
-                and isinstance(c.args[0], (ast.Tuple, ast.List, ast.Set))]
-        eadds = [c for c in au.calls(consumer) if isinstance(c.func, ast.Attribute) and c.func.attr == "add"
-                 and au.is_self_attr(c.func.value, "feature_edges") and len(c.args) == 1]
-        n += 1
-        if not ends:
-            ctx.fail("C15-P1", ctx.site(FEAT, fn, consumer), "endpoints of a feature edge are not unpacked from mesh.edges[e]",
-                     "feature vertices are the endpoints of feature edges")
+        oks = []
+        for c, lp in events["feature_edges"]:
+            kind, e = edge_domain(c, lp)
+            if kind == "F" and H.is_name(c.args[0], e) and au.call_tail(c) == "add":
+                oks.append(lp)
+        if len(oks) == 1 and len(events["feature_edges"]) == 1:
+            fe_fill = oks[0]
+            ctx.ok("C15-P1", ctx.site(FEAT, fn0, oks[0]), "every flagged edge enters feature_edges")
         else:
-            added = sorted([au.src(c.args[0]) for c in vadds] + [au.src(x) for c in vupd for x in c.args[0].elts])
-            uncond = all(au.enclosing_stmt(c) in consumer.body for c in vadds + vupd + eadds)
-            ctx.check(added == sorted(ends) and len(set(ends)) == 2 and uncond and len(eadds) == 1 and H.is_name(eadds[0].args[0], e),
-                      "C15-P1", ctx.site(FEAT, fn, consumer),
-                      "feature_vertices does not receive exactly the two endpoints of every flagged edge",
-                      f"both endpoints of every feature edge are feature vertices (and every flagged edge is a feature edge), unconditionally; "
-                      f"found adds {added} for edge ({', '.join(ends)})",
-                      note="both endpoints enter feature_vertices")
-    # (b) degrees
-    deg_loops = []
-    for st in au.stmts(fn.body):
-        if isinstance(st, ast.For) and H.subscript_stores(st.body, lambda b: au.is_self_attr(b, "feature_degrees")):
-            deg_loops.append(st)
-    n += 1
-    if len(deg_loops) != 1:
-        ctx.fail("C15-P1", site, f"run: {len(deg_loops)} loop(s) updating self.feature_degrees (expected one)",
-                 "the degree of a vertex is the number of feature edges it belongs to")
+            ctx.undecided("C15-P1", site, "run: feature_edges is not filled by one `add(e)` per key of the feature attribute", "")
+    if not events["feature_vertices"]:
+        ctx.undecided("C15-P1", site, "run: the statements filling self.feature_vertices are not recognised", "")
     else:
-        lp = deg_loops[0]
-        it_ok = isinstance(lp.target, ast.Name) and (au.is_self_attr(lp.iter, "feature_edges") or (F and H.is_name(lp.iter, F)))
-        ends, _ = _unpack_ends(lp.body, mesh, lp.target.id) if isinstance(lp.target, ast.Name) else (None, None)
-        sts = H.subscript_stores(lp.body, lambda b: au.is_self_attr(b, "feature_degrees"))
-        incs = []
-        for st, tgt, val in sts:
-            k = None
-            if isinstance(st, ast.AugAssign) and isinstance(st.op, ast.Add):
-                k = au.const(st.value)
-            elif isinstance(st, ast.Assign) and val is not None:
-                try:
-                    p = sym.to_poly(val, atom_of=lambda x, _t=au.src(tgt): "D" if au.src(x) == _t else None, opaque=False)
-                    if p.coeff("D") == sym.Poly.const(1) and p.without("D").is_const():
-                        k = int(p.without("D").const_value())
-                except sym.NotPoly:
-                    k = None
-            incs.append((au.src(tgt.slice), k, st in lp.body))
-        ok = bool(ends) and it_ok and sorted(i[0] for i in incs) == sorted(ends) and len(set(ends)) == 2 \
-            and all(k == 1 and top for _, k, top in incs)
-        ctx.check(ok, "C15-P1", ctx.site(FEAT, fn, lp),
-                  "feature_degrees is not incremented by one for each of the two endpoints of every feature edge",
-                  f"each feature edge adds exactly one to the degree of each of its two endpoints, once (loop over the feature edge set); "
-                  f"found updates {[(a, k) for a, k, _ in incs]} for edge {ends}",
-                  note="degree += 1 for both endpoints")
-    # (c) local feature edges
-    lfe = [st for st in au.stmts(fn.body) if isinstance(st, ast.For) and isinstance(st.target, ast.Name)
-           and any(isinstance(t, ast.Subscript) and au.is_self_attr(t.value, "local_feat_edges")
-                   for s in st.body if isinstance(s, ast.Assign) for t in s.targets)]
-    n += 1
-    if len(lfe) != 1:
-        ctx.fail("C15-P1", site, "run: loop initialising self.local_feat_edges[v] not found", "")
-    else:
-        lp = lfe[0]
-        v = lp.target.id
-        ok_iter = au.is_self_attr(lp.iter, "feature_vertices")
-        # candidate forms: (enumerate call, target, appended element, [(cond, polarity)], starts empty)
-        forms = []
-        init_pos = [i for i, s in enumerate(lp.body) if isinstance(s, ast.Assign) and isinstance(s.targets[0], ast.Subscript)
-                    and au.is_self_attr(s.targets[0].value, "local_feat_edges") and H.is_name(s.targets[0].slice, v)
-                    and isinstance(s.value, (ast.List, ast.Call)) and not getattr(s.value, "elts", None)
-                    and not getattr(s.value, "args", None)]
-        for i, s in enumerate(lp.body):
-            if isinstance(s, ast.Assign) and len(s.targets) == 1 and isinstance(s.targets[0], ast.Subscript) \
-                    and au.is_self_attr(s.targets[0].value, "local_feat_edges") and H.is_name(s.targets[0].slice, v) \
-                    and isinstance(s.value, ast.ListComp) and len(s.value.generators) == 1:
-                g = s.value.generators[0]
-                forms.append((g.iter, g.target, s.value.elt, [(t, True) for t in g.ifs], True))
-            if isinstance(s, ast.For):
-                apps = [c for c in au.calls(s) if isinstance(c.func, ast.Attribute) and c.func.attr == "append"
-                        and isinstance(c.func.value, ast.Subscript) and au.is_self_attr(c.func.value.value, "local_feat_edges")]
-                if len(apps) == 1 and len(apps[0].args) == 1 and H.is_name(apps[0].func.value.slice, v):
-                    cond = [(t, pol) for t, pol, _ in H.path_condition(apps[0], stop=s)]
-                    forms.append((s.iter, s.target, apps[0].args[0], cond, bool(init_pos) and init_pos[0] < i))
-        ok = False
-        detail = "no `for i, ev in enumerate(vertex_to_edges(v))` filling local_feat_edges[v]"
-        for it, t, elt, cond, empty in forms:
-            if not (isinstance(it, ast.Call) and au.call_tail(it) == "enumerate" and it.args):
-                continue
-            start = 0
-            if len(it.args) > 1:
-                start = au.const(it.args[1])
-            for kw in it.keywords:
-                if kw.arg == "start":
-                    start = au.const(kw.value)
-            src_call = it.args[0]
-            if not (isinstance(t, ast.Tuple) and len(t.elts) == 2 and all(isinstance(x, ast.Name) for x in t.elts)):
-                continue
-            ki, ke = t.elts[0].id, t.elts[1].id
-            c0 = cond[0] if len(cond) == 1 else None
-            if c0 and isinstance(c0[0], ast.UnaryOp) and isinstance(c0[0].op, ast.Not):
-                c0 = (c0[0].operand, not c0[1])
-            cond_ok = c0 is not None and c0[1] is True and isinstance(c0[0], ast.Subscript) \
-                and (F is None or H.is_name(c0[0].value, F)) and H.is_name(c0[0].slice, ke)
-            ok = (start == 0 and isinstance(src_call, ast.Call) and au.call_tail(src_call) == "vertex_to_edges"
-                  and len(src_call.args) == 1 and H.is_name(src_call.args[0], v)
-                  and H.is_name(elt, ki) and cond_ok and empty and ok_iter and len(forms) == 1)
-            detail = (f"collects `{au.src(elt)}` under `{' and '.join(('' if pl else 'not ') + au.src(c) for c, pl in cond)}` "
-                      f"while enumerating `{au.src(it)}`" + ("" if empty else ", list not reset first"))
-        ctx.check(ok, "C15-P1", ctx.site(FEAT, fn, lp), "local_feat_edges[v] is not the list of positions i of flagged edges in enumerate(vertex_to_edges(v))",
-                  f"documented as local indices in the order of mesh.connectivity.vertex_to_edges, for every feature vertex, starting from an empty list; found: {detail}",
-                  note="local_feat_edges[v] = [i for i, ev in enumerate(vertex_to_edges(v)) if feature[ev]]")
-    # (d) vertex flag
-    flagged = False
+        got, unknown, per_loop, all_edges = set(), [], {}, []
+        for c, lp in events["feature_vertices"]:
+            kind, e = edge_domain(c, lp) if not edge_loop(c)[1] else (edge_domain(edge_loop(c)[1][-1], lp) if lp is not None else (None, None))
+            a = au.src(c.args[0])
+            ends = endpoints_of(c.args[0], c, e, edge_loop(c)[1]) if e else None
+            if au.call_tail(c) == "update" and ends != {"0", "1"}:
+                ends = None
+            if kind == "ALL" and ends:
+                all_edges.append(c)
+            elif kind in ("F", "FE") and ends:
+                if kind == "FE" and (fe_fill is None or not (_top_pos(fn, fe_fill) is not None and _top_pos(fn, lp) is not None and _top_pos(fn, fe_fill) < _top_pos(fn, lp))):
+                    unknown.append(a)
+                    continue
+                per_loop.setdefault(id(lp), set()).update(ends)
+                got.update(ends)
+            else:
+                unknown.append(a)
+        vsite = ctx.site(FEAT, fn0, events["feature_vertices"][0][0])
+        if all_edges:
+            ctx.fail("C15-P1", vsite, "feature_vertices receives the endpoints of edges that are not flagged",
+                     "the insertion runs for every edge of the mesh, not only for the feature edges")
+        elif unknown:
+            ctx.undecided("C15-P1", vsite, "run: an insertion into feature_vertices is not recognised as an endpoint of a flagged edge", "")
+        elif got == {"0", "1"} and all(v == {"0", "1"} for v in per_loop.values()):
+            ctx.ok("C15-P1", vsite, "both endpoints enter feature_vertices")
+        else:
+            ctx.fail("C15-P1", vsite, "feature_vertices does not receive both endpoints of every flagged edge",
+                     f"only endpoint(s) {sorted(got)} of mesh.edges[e] are inserted: both endpoints of every feature edge are feature vertices")
+    # ---- (b) degrees
+    incs = []
     for st in au.stmts(fn.body):
-        if isinstance(st, ast.For) and isinstance(st.target, ast.Name) and au.is_self_attr(st.iter, "feature_vertices"):
-            for s in st.body:
-                if isinstance(s, ast.Assign) and isinstance(s.targets[0], ast.Subscript) and isinstance(s.targets[0].value, ast.Name) \
-                        and H.is_name(s.targets[0].slice, st.target.id) and au.const(s.value) is True:
-                    fv = s.targets[0].value.id
-                    defs = [d for d in au.stmts(fn.body) if isinstance(d, ast.Assign) and any(H.is_name(t, fv) for t in d.targets)]
-                    if defs and all(isinstance(d.value, ast.Call) and au.src(d.value.func.value) == f"{mesh}.vertices"
-                                    and d.value.args and au.const(d.value.args[0]) == "feature" for d in defs):
-                        flagged = True
-    n += 1
-    ctx.check(flagged, "C15-P1", site, "vertex attribute 'feature' is not set to True for every v in self.feature_vertices",
-              "the published vertex flag must agree with feature_vertices", note="vertex flag set for every feature vertex")
-    fl.require(4)
+        inc = au.increment(st)
+        if inc is None:
+            continue
+        tgt = st.target if isinstance(st, ast.AugAssign) else st.targets[0]
+        if isinstance(tgt, ast.Subscript) and au.is_self_attr(S.canon(tgt.value, st), "feature_degrees"):
+            incs.append((st, tgt, inc))
+    others = [st for st, tgt, val in H.subscript_stores(fn, lambda b: True)
+              if au.is_self_attr(S.canon(tgt.value, st), "feature_degrees") and all(st is not x[0] for x in incs)]
+    if not incs or others:
+        ctx.undecided("C15-P1", site, "run: the update of self.feature_degrees is not a per-edge increment", "")
+    else:
+        per, unknown, bad_k, all_edges = {}, [], [], []
+        for st, tgt, (tsrc, sign, amount) in incs:
+            lp, inner = edge_loop(st)
+            kind, e = edge_domain(st, lp) if not inner else (edge_domain(inner[-1], lp) if lp is not None else (None, None))
+            a = au.src(tgt.slice)
+            k = au.const(S.canon(amount, st))
+            ends = endpoints_of(tgt.slice, st, e, inner) if e else None
+            if kind == "ALL" and ends:
+                all_edges.append(st)
+            elif kind in ("F", "FE") and ends:
+                if kind == "FE" and (fe_fill is None or not (_top_pos(fn, fe_fill) < _top_pos(fn, lp))):
+                    unknown.append(a)
+                    continue
+                if sign != 1 or k != 1:
+                    bad_k.append(au.src(st))
+                per.setdefault(id(lp), []).extend(sorted(ends))
+            else:
+                unknown.append(a)
+        dsite = ctx.site(FEAT, fn0, incs[0][0])
+        if all_edges:
+            ctx.fail("C15-P1", dsite, "feature_degrees is incremented for edges that are not flagged",
+                     "the loop ranges over every edge of the mesh: the degree of a vertex is the number of *feature* edges it belongs to")
+        elif unknown:
+            ctx.undecided("C15-P1", dsite, "run: an update of feature_degrees is not recognised as the endpoint of a feature edge", "")
+        elif len(per) != 1:
+            ctx.undecided("C15-P1", dsite, "run: feature_degrees is updated in several loops", "")
+        else:
+            ends = sorted(list(per.values())[0])
+            ctx.check(ends == ["0", "1"] and not bad_k, "C15-P1", dsite,
+                      "feature_degrees is not incremented by one for each of the two endpoints of every feature edge",
+                      f"each feature edge adds exactly one to the degree of each of its two endpoints, once; found endpoints {ends}, "
+                      f"amounts other than +1: {bad_k}", note="degree += 1 for both endpoints")
+    # ---- (c) local feature edges
+    _local_feat_edges(ctx, fn0, fn, S, mesh, is_feature_attr, domain_kind)
+    # ---- (d) vertex flag
+    flagged = None
+    for st, tgt, val in H.subscript_stores(fn, lambda b: True):
+        r = S.canon(tgt.value, st)
+        if _attr_identity(r) == (mesh, "vertices", "feature"):
+            lps = H.for_ancestors(st, stop=fn)
+            kind, v = domain_kind(lps[0]) if len(lps) == 1 else (None, None)
+            if kind == "FV" and H.is_name(tgt.slice, v) and not S.conds(st, stop=lps[0]):
+                c = au.const(S.canon(val, st)) if val is not None else None
+                flagged = (st, c)
+    if flagged is None:
+        holders = [n for st in au.stmts(fn.body) if isinstance(st, ast.Assign) and isinstance(st.value, ast.Call)
+                   and au.call_tail(st.value) in ("get_attribute", "create_attribute") and _attr_identity(S.canon(st.value, st)) == (mesh, "vertices", "feature")
+                   for t in st.targets for n in au.assigned_names(t)]
+        used = [n for n in au.walk(fn) if isinstance(n, ast.Name) and n.id in holders and isinstance(n.ctx, ast.Load)
+                and not (isinstance(au.parent(n), ast.Attribute) and au.parent(n).attr == "clear")]
+        if holders and not used:
+            ctx.fail("C15-P1", site, "vertex attribute 'feature' is created / cleared but never written",
+                     "the published vertex flag must agree with feature_vertices")
+        else:
+            ctx.undecided("C15-P1", site, "run: the store of the vertex attribute 'feature' over self.feature_vertices is not recognised", "")
+    else:
+        ctx.check(flagged[1] is True, "C15-P1", ctx.site(FEAT, fn0, flagged[0]), "vertex attribute 'feature' is not set to True for every v in self.feature_vertices",
+                  "the published vertex flag must agree with feature_vertices", note="vertex flag set for every feature vertex")
 
 
-# =========================================================================== border extraction
-def _cycle_collector(ctx, fn, want_edges):
-    """Common visited book-keeping of extract_border_cycle_all / extract_boundary_of_surface.
-    Returns dict(outer loop, guarded block, cycle vertex loop, names) or None (after reporting)."""
-    site = ctx.site(BORD, fn)
+def _local_feat_edges(ctx, fn0, fn, S, mesh, is_feature_attr, domain_kind):
+    site = ctx.site(FEAT, fn0)
+    # appends whose receiver is self.local_feat_edges[v] or a local list later stored there
+    apps = []
+    for c in au.calls(fn):
+        if au.call_tail(c) == "append" and isinstance(c.func, ast.Attribute) and len(c.args) == 1:
+            recv = c.func.value
+            rc = S.canon(recv, c)
+            if isinstance(rc, ast.Subscript) and au.is_self_attr(rc.value, "local_feat_edges"):
+                apps.append((c, "direct", recv))
+            elif isinstance(recv, ast.Name):
+                for st, tgt, val in H.subscript_stores(fn, lambda b: True):
+                    if au.is_self_attr(S.canon(tgt.value, st), "local_feat_edges") and H.is_name(val, recv.id):
+                        apps.append((c, "local", tgt))
+    if len(apps) != 1:
+        ctx.undecided("C15-P1", site, "run: the statement collecting local_feat_edges[v] is not recognised", "")
+        return
+    c, how, holder = apps[0]
+    lps = H.for_ancestors(c, stop=fn)
+    if len(lps) != 2:
+        ctx.undecided("C15-P1", site, "run: local_feat_edges is not filled by a loop over the edges around each feature vertex", "")
+        return
+    inner, outer = lps
+    kind, v = domain_kind(outer)
+    asite = ctx.site(FEAT, fn0, outer)
+    if kind != "FV":
+        ctx.undecided("C15-P1", asite, "run: local_feat_edges is not filled in a loop over self.feature_vertices", "")
+        return
+    key = holder.slice if isinstance(holder, ast.Subscript) else None
+    if key is None or not H.is_name(S.canon(key, c, keep=(v,)), v):
+        ctx.undecided("C15-P1", asite, "run: local_feat_edges is not keyed by the feature vertex of the loop", "")
+        return
+    elem, idx, seq, start = H.loop_elem(inner)
+    seqc = S.canon(seq, inner, keep=(v,))
+    if not (isinstance(seqc, ast.Call) and len(seqc.args) == 1 and H.is_name(seqc.args[0], v) and au.call_tail(seqc) in ("vertex_to_edges", "vertex_to_vertices", "vertex_to_faces")):
+        ctx.undecided("C15-P1", asite, "run: the inner loop of local_feat_edges does not range over a neighbourhood of the vertex", "")
+        return
+    if au.call_tail(seqc) != "vertex_to_edges":
+        ctx.fail("C15-P1", asite, "local_feat_edges[v] is not the list of positions i of flagged edges in enumerate(vertex_to_edges(v))",
+                 f"the inner loop ranges over {au.call_tail(seqc)}(v): documented as local indices in the order of mesh.connectivity.vertex_to_edges")
+        return
+    if idx is None or not isinstance(elem, ast.Name):
+        ctx.undecided("C15-P1", asite, "run: positions in vertex_to_edges(v) are not produced by enumerate", "")
+        return
+    ev = elem.id
+    # condition: the edge is flagged
+    conds = H.path_condition(c, stop=inner)
+    cond_ok = None
+    if len(conds) == 1:
+        t, pol, at = conds[0]
+        t, pol = au.strip_not(t, pol)
+        flagged = None
+        if isinstance(t, ast.Subscript) and H.is_name(t.slice, ev) and is_feature_attr(t.value, at):
+            flagged = True
+        elif isinstance(t, ast.Subscript) and H.is_name(t.slice, idx) and is_feature_attr(t.value, at):
+            ctx.fail("C15-P1", asite, "local_feat_edges[v] is not the list of positions i of flagged edges in enumerate(vertex_to_edges(v))",
+                     "the feature attribute is read at the local position i instead of the edge vertex_to_edges(v)[i]")
+            return
+        elif isinstance(t, ast.Compare) and len(t.ops) == 1 and isinstance(t.ops[0], (ast.In, ast.NotIn)) and H.is_name(t.left, ev) \
+                and (au.is_self_attr(S.canon(t.comparators[0], at), "feature_edges") or is_feature_attr(t.comparators[0], at)):
+            flagged = isinstance(t.ops[0], ast.In)
+        if flagged is not None:
+            cond_ok = (flagged == pol)
+    if cond_ok is None:
+        ctx.undecided("C15-P1", asite, "run: the condition under which a position enters local_feat_edges[v] is not recognised", "")
+        return
+    # initialisation: empty list per vertex before the inner loop
+    init_ok = False
+    for s in outer.body:
+        if s is H.top_stmt_in(outer.body, inner):
+            break
+        if isinstance(s, ast.Assign) and len(s.targets) == 1 and H.is_empty_container(s.value) == "list":
+            t = s.targets[0]
+            if how == "direct" and isinstance(t, ast.Subscript) and au.is_self_attr(S.canon(t.value, s), "local_feat_edges") and H.is_name(t.slice, v):
+                init_ok = True
+            if how == "local" and isinstance(c.func.value, ast.Name) and H.is_name(t, c.func.value.id):
+                init_ok = True
+    problems = []
+    if au.const(start) != 0:
+        problems.append(f"enumerate starts at {au.src(start)}")
+    if not H.is_name(c.args[0], idx):
+        problems.append(f"collects `{au.src(c.args[0])}` instead of the position")
+    if not cond_ok:
+        problems.append("collects the edges that are not flagged")
+    if not init_ok:
+        if problems:
+            pass
+        else:
+            ctx.undecided("C15-P1", asite, "run: the per-vertex reset of local_feat_edges[v] to an empty list is not recognised", "")
+            return
+    ctx.check(not problems, "C15-P1", asite, "local_feat_edges[v] is not the list of positions i of flagged edges in enumerate(vertex_to_edges(v))",
+              "documented as local indices in the order of mesh.connectivity.vertex_to_edges, for every feature vertex, starting from an empty list; found: "
+              + "; ".join(problems), note="local_feat_edges[v] = [i for i, ev in enumerate(vertex_to_edges(v)) if feature[ev]]")
+
+
+# =========================================================================== border extraction: cycle collectors
+def _collector(ctx, name):
+    """Visited book-keeping common to extract_border_cycle_all / extract_boundary_of_surface, on the normal form (a shared
+    generator / helper is inlined).  Returns the facts dict or None (after reporting)."""
+    fn0 = ctx.repo.func(BORD, name)
+    site = ctx.site(BORD, fn0)
+    fn, S, nz = H.norm_fn(ctx, BORD, name, keep=("extract_border_cycle",))
     mesh = (au.params(fn) or ["mesh"])[0]
     calls = [c for c in au.calls(fn) if au.call_tail(c) == "extract_border_cycle"]
     if len(calls) != 1:
-        ctx.fail("C15-B1", site, f"{fn.name}: {len(calls)} call(s) of extract_border_cycle (expected one, in the loop over border vertices)", "")
+        ctx.undecided("C15-B1", site, f"{name}: the extraction of one cycle per border loop (call of extract_border_cycle) is not recognised",
+                      f"{len(calls)} call(s) after inlining {sorted(set(nz.inlined))}")
         return None
     call = calls[0]
-    loops = [l for l in H.loop_ancestors(call, stop=fn) if isinstance(l, ast.For)]
-    outer = loops[-1] if loops else None
-    ok_outer = outer is not None and len(loops) == 1 and isinstance(outer.target, ast.Name) \
-        and au.src(outer.iter) == f"{mesh}.boundary_vertices"
-    ctx.check(ok_outer, "C15-B1", ctx.site(BORD, fn, call), f"{fn.name}: cycles are not extracted in one loop over mesh.boundary_vertices",
-              "every border loop must be reached: each border vertex is a candidate starting point",
-              note=f"{fn.name}: candidates = mesh.boundary_vertices")
-    if not ok_outer:
+    st = au.enclosing_stmt(call)
+    csite = ctx.site(BORD, fn0, call)
+    loops = H.loop_ancestors(call, stop=fn)
+    outer = loops[0] if loops else None
+    if len(loops) != 1 or not isinstance(outer, ast.For) or not isinstance(outer.target, ast.Name) \
+            or au.src(S.canon(outer.iter, outer)) != f"{mesh}.boundary_vertices":
+        ctx.undecided("C15-B1", csite, f"{name}: cycles are not extracted in one `for` loop over mesh.boundary_vertices", "")
         return None
     v = outer.target.id
-    args_ok = len(call.args) == 2 and H.is_name(call.args[0], mesh) and H.is_name(call.args[1], v) and not call.keywords
     kw = {k.arg: k.value for k in call.keywords}
-    if not args_ok and len(call.args) == 1 and H.is_name(call.args[0], mesh) and H.is_name(kw.get("starting_point"), v):
-        args_ok = True
-    cond = H.path_condition(call, stop=outer)
-    vis = None
-    if len(cond) == 1 and isinstance(cond[0][0], ast.Subscript) and isinstance(cond[0][0].value, ast.Name) \
-            and H.is_name(cond[0][0].slice, v) and cond[0][1] is False:
-        vis = cond[0][0].value.id
-    elif len(cond) == 1 and cond[0][1] is True and isinstance(cond[0][0], ast.UnaryOp) and isinstance(cond[0][0].op, ast.Not) \
-            and isinstance(cond[0][0].operand, ast.Subscript) and isinstance(cond[0][0].operand.value, ast.Name) \
-            and H.is_name(cond[0][0].operand.slice, v):
-        vis = cond[0][0].operand.value.id
-    ctx.check(args_ok and vis is not None, "C15-B1", ctx.site(BORD, fn, call),
-              f"{fn.name}: extract_border_cycle(mesh, v) is not guarded by exactly `not visited[v]` for the loop vertex v",
-              "a loop must be extracted once: from its first unvisited vertex, and from no vertex of an already extracted loop",
-              note=f"{fn.name}: extraction guarded by not visited[v]")
-    if vis is None:
+    a0 = call.args[0] if call.args else kw.get("mesh")
+    a1 = call.args[1] if len(call.args) > 1 else kw.get("starting_point")
+    if a0 is None or a1 is None or not H.is_name(S.canon(a0, call), mesh) or not H.is_name(S.canon(a1, call, keep=(v,)), v):
+        if a1 is None and a0 is not None:
+            ctx.fail("C15-B1", csite, f"{name}: extract_border_cycle is called without the border vertex of the loop as starting point",
+                     "every call then returns the loop of the first border vertex: the other loops are never extracted")
+        else:
+            ctx.undecided("C15-B1", csite, f"{name}: arguments of extract_border_cycle not recognised as (mesh, loop vertex)", "")
         return None
-    st = au.enclosing_stmt(call)
-    # result unpacking
-    cyc_v = cyc_e = None
+    ctx.ok("C15-B1", csite, f"{name}: candidates = mesh.boundary_vertices, extraction starts at the loop vertex")
+    # ---- guard: not visited(v)
+    vis = {"k": None, "form": None}
+
+    def atom(x, boolean):
+        if isinstance(x, ast.Subscript) and H.is_name(x.slice, v) and isinstance(x.value, (ast.Name, ast.Attribute)) and boolean:
+            k = au.src(x.value)
+            if vis["k"] in (None, k):
+                vis["k"], vis["form"] = k, "flag"
+                return H.name("visited")
+        if isinstance(x, ast.Compare) and len(x.ops) == 1 and isinstance(x.ops[0], (ast.In, ast.NotIn)) and H.is_name(x.left, v) \
+                and isinstance(x.comparators[0], (ast.Name, ast.Attribute)):
+            k = au.src(x.comparators[0])
+            if vis["k"] in (None, k):
+                vis["k"], vis["form"] = k, "member"
+                n = H.name("visited")
+                return n if isinstance(x.ops[0], ast.In) else ast.UnaryOp(op=ast.Not(), operand=n)
+        return None
+    raw = H.path_condition(call, stop=outer)
+    if not raw:
+        ctx.fail("C15-B1", csite, f"{name}: extract_border_cycle(mesh, v) is not guarded by `not visited[v]` for the loop vertex v",
+                 "a loop must be extracted once: from its first unvisited vertex, and from no vertex of an already extracted loop")
+        return None
+    ab = H.Abs(atom)
+    code = ab.boolean(H.conj([(t, p) for t, p, _ in raw]))
+    if not ab.unknown and vis["k"] is None:
+        ctx.fail("C15-B1", csite, f"{name}: extract_border_cycle(mesh, v) is not guarded by `not visited[v]` for the loop vertex v",
+                 "a loop must be extracted once: from its first unvisited vertex, and from no vertex of an already extracted loop")
+        return None
+    if ab.unknown:
+        ctx.undecided("C15-B1", csite, f"{name}: the condition guarding the extraction is not recognised as a visited test of the loop vertex", "")
+        return None
+    wit, n = H.compare(code, "not visited")
+    K, form = vis["k"], vis["form"]
+    remaining = False
+    if wit is not None and H.compare(code, "visited")[0] is None and "." not in K:
+        # the container may hold the vertices that are still to be visited: then the vertices of a cycle are removed from it
+        blk0, _ = au.enclosing_block(st)
+        removed = inserted = False
+        for s2 in au.stmts(blk0[H.block_pos(st) + 1:]):
+            for c2 in au.calls(s2) if isinstance(s2, ast.Expr) else []:
+                if isinstance(c2.func, ast.Attribute) and H.is_name(c2.func.value, K):
+                    if c2.func.attr in ("difference_update", "remove", "discard", "pop"):
+                        removed = True
+                    if c2.func.attr in ("add", "update", "append", "extend"):
+                        inserted = True
+            if isinstance(s2, ast.AugAssign) and H.is_name(s2.target, K):
+                removed = removed or isinstance(s2.op, ast.Sub)
+                inserted = inserted or isinstance(s2.op, (ast.BitOr, ast.Add))
+            if isinstance(s2, ast.Assign) and isinstance(s2.targets[0], ast.Subscript) and H.is_name(s2.targets[0].value, K):
+                removed = removed or au.const(s2.value) is False
+                inserted = inserted or au.const(s2.value) is True
+            if isinstance(s2, ast.Delete) and any(isinstance(t, ast.Subscript) and H.is_name(t.value, K) for t in s2.targets):
+                removed = True
+        if inserted and not removed:
+            ctx.fail("C15-B1", csite, f"{name}: extract_border_cycle(mesh, v) is not guarded by exactly `not visited[v]` for the loop vertex v",
+                     "the extraction only runs for vertices that are already recorded as visited")
+        else:
+            ctx.undecided("C15-B1", csite, f"{name}: the book-keeping of the border vertices still to be visited is not recognised", "")
+        return None
+    if not ctx.check(wit is None, "C15-B1", csite, f"{name}: extract_border_cycle(mesh, v) is not guarded by exactly `not visited[v]` for the loop vertex v",
+                     "a loop must be extracted once: from its first unvisited vertex, and from no vertex of an already extracted loop",
+                     note=f"{name}: extraction guarded by not visited[v]"):
+        return None
+    # ---- result of the call
+    cyc = {}
     if isinstance(st, ast.Assign) and st.value is call and len(st.targets) == 1:
         t = st.targets[0]
         if isinstance(t, (ast.Tuple, ast.List)) and len(t.elts) == 2 and all(isinstance(x, ast.Name) for x in t.elts):
-            cyc_v, cyc_e = t.elts[0].id, t.elts[1].id
-    if cyc_v is None:
-        ctx.fail("C15-B1", ctx.site(BORD, fn, call), f"{fn.name}: result of extract_border_cycle is not unpacked as (vertices, edges)", "")
+            cyc = {"v": t.elts[0].id, "e": t.elts[1].id}
+        elif isinstance(t, ast.Name):
+            cyc = {"pair": t.id}
+    if not cyc:
+        ctx.undecided("C15-B1", csite, f"{name}: the result of extract_border_cycle is not bound to local names", "")
         return None
+    cv_src = f"extract_border_cycle({mesh}, {v})[0]"
+    ce_src = f"extract_border_cycle({mesh}, {v})[1]"
+
+    def denotes(e, at, which):
+        c = S.canon(e, at, keep=(v,))
+        s = au.src(c)
+        return s.replace("starting_point=", "") == (cv_src if which == "v" else ce_src) or \
+            (isinstance(c, ast.Subscript) and isinstance(c.value, ast.Call) and au.call_tail(c.value) == "extract_border_cycle"
+             and au.const(c.slice) == (0 if which == "v" else 1))
+    # ---- marking of the vertices of the cycle
     blk, _ = au.enclosing_block(st)
-    # marking loop in the same block
-    mark = None
-    for s in blk:
-        if isinstance(s, ast.For) and H.is_name(s.iter, cyc_v) and isinstance(s.target, ast.Name):
-            for s2 in s.body:
+    after = blk[H.block_pos(st) + 1:]
+    marked, bad_mark = False, None
+    for s in au.stmts(after):
+        if isinstance(s, ast.For) and isinstance(H.loop_elem(s)[0], ast.Name) and denotes(H.loop_elem(s)[2], s, "v"):
+            x = H.loop_elem(s)[0].id
+            for s2 in au.stmts(s.body):
                 if isinstance(s2, ast.Assign) and len(s2.targets) == 1 and isinstance(s2.targets[0], ast.Subscript) \
-                        and H.is_name(s2.targets[0].value, vis) and H.is_name(s2.targets[0].slice, s.target.id) \
-                        and au.const(s2.value) is True:
-                    mark = s
-    after = mark is not None and H.block_pos(mark) > H.block_pos(st)
-    ctx.check(mark is not None and after, "C15-B1", ctx.site(BORD, fn, st),
-              f"{fn.name}: the vertices of an extracted cycle are not all marked `{vis}[x] = True` in the guarded block",
-              "an unmarked vertex of the loop starts the same loop again: cycles are returned more than once",
-              note=f"{fn.name}: every vertex of the cycle is marked")
-    # visited initialised to False
-    inits = [s for s in fn.body if isinstance(s, ast.Assign) and any(H.is_name(t, vis) for t in s.targets)]
-    ok_init = False
-    if len(inits) == 1:
-        val = inits[0].value
-        if isinstance(val, ast.Call) and au.call_tail(val) == "Attribute" and val.args and H.is_name(val.args[0], "bool"):
-            ok_init = True
+                        and au.src(s2.targets[0].value) == K and H.is_name(s2.targets[0].slice, x) and not H.path_condition(s2, stop=s):
+                    if form == "member" or au.const(s2.value) is True or (au.const(s2.value) not in (False, None, 0) and form == "member"):
+                        marked = True
+                    elif au.const(s2.value) in (False, 0):
+                        bad_mark = s2
+                    else:
+                        marked = marked or (au.const(s2.value) is None and form == "member")
+                if isinstance(s2, ast.Expr) and isinstance(s2.value, ast.Call) and au.call_tail(s2.value) in ("add", "append") \
+                        and au.src(s2.value.func.value) == K and len(s2.value.args) == 1 and H.is_name(s2.value.args[0], x) \
+                        and not H.path_condition(s2, stop=s) and form == "member":
+                    marked = True
+        if isinstance(s, ast.Expr) and isinstance(s.value, ast.Call) and au.call_tail(s.value) in ("update", "extend") \
+                and isinstance(s.value.func, ast.Attribute) and au.src(s.value.func.value) == K and len(s.value.args) == 1 and form == "member":
+            a = s.value.args[0]
+            if isinstance(a, ast.Call) and au.call_tail(a) in ("set", "list", "tuple") and len(a.args) == 1:
+                a = a.args[0]
+            if denotes(a, s, "v"):
+                marked = True
+        if isinstance(s, ast.AugAssign) and isinstance(s.op, (ast.BitOr, ast.Add)) and au.src(s.target) == K and form == "member":
+            a = s.value
+            if isinstance(a, ast.Call) and au.call_tail(a) in ("set", "list", "tuple") and len(a.args) == 1:
+                a = a.args[0]
+            if denotes(a, s, "v"):
+                marked = True
+    msite = ctx.site(BORD, fn0, st)
+    only_start = [s for s in after if isinstance(s, ast.Assign) and len(s.targets) == 1 and isinstance(s.targets[0], ast.Subscript)
+                  and au.src(s.targets[0].value) == K and H.is_name(s.targets[0].slice, v)] + \
+                 [s for s in after if isinstance(s, ast.Expr) and isinstance(s.value, ast.Call) and au.call_tail(s.value) in ("add", "append")
+                  and au.src(s.value.func.value) == K and len(s.value.args) == 1 and H.is_name(s.value.args[0], v)]
+    if not marked and only_start and bad_mark is None:
+        ctx.fail("C15-B1", ctx.site(BORD, fn0, only_start[0]), f"{name}: only the starting vertex of an extracted cycle is marked visited",
+                 "an unmarked vertex of the loop starts the same loop again: cycles are returned more than once")
+    elif marked:
+        ctx.ok("C15-B1", msite, f"{name}: every vertex of the cycle is marked")
+    elif bad_mark is not None:
+        ctx.fail("C15-B1", ctx.site(BORD, fn0, bad_mark), f"{name}: the vertices of an extracted cycle are not all marked visited in the guarded block",
+                 "an unmarked vertex of the loop starts the same loop again: cycles are returned more than once")
+    else:
+        # is the visited container ever written after its creation?
+        kname = K.split(".")[0]
+        writes = [n for n in au.walk(outer) if (isinstance(n, ast.Subscript) and isinstance(n.ctx, ast.Store) and au.src(n.value) == K)
+                  or (isinstance(n, ast.Call) and isinstance(n.func, ast.Attribute) and au.src(n.func.value) == K
+                      and n.func.attr in ("add", "append", "update", "extend", "__setitem__", "setdefault"))
+                  or (isinstance(n, ast.AugAssign) and au.src(n.target) == K)]
+        if not writes:
+            ctx.fail("C15-B1", msite, f"{name}: the vertices of an extracted cycle are not all marked visited in the guarded block",
+                     "the visited container is never updated inside the loop: an unmarked vertex of the loop starts the same loop again")
         else:
-            txt = [n for n in ast.walk(val) if isinstance(n, ast.Constant) and isinstance(n.value, bool)]
-            ok_init = bool(txt) and all(n.value is False for n in txt) and f"{mesh}.boundary_vertices" in au.src(val)
-    ctx.check(ok_init, "C15-B1", site, f"{fn.name}: `{vis}` is not initialised to False for every border vertex",
-              "a vertex that starts out visited is never used as a starting point: its loop is lost",
-              note=f"{fn.name}: visited starts all False")
-    return {"outer": outer, "block": blk, "stmt": st, "mark": mark, "cyc_v": cyc_v, "cyc_e": cyc_e, "mesh": mesh, "vis": vis}
+            ctx.undecided("C15-B1", msite, f"{name}: the marking of the vertices of an extracted cycle is not recognised", "")
+    # ---- initial state of the visited container
+    if "." not in K:
+        d = S.value(K, outer)
+        ok_init = None
+        if d is not None:
+            if H.is_empty_container(d):
+                ok_init = True
+            elif isinstance(d, ast.Call) and au.call_tail(d) in ("dict", "fromkeys"):
+                consts = [n.value for n in ast.walk(d) if isinstance(n, ast.Constant) and isinstance(n.value, bool)]
+                if au.call_tail(d) == "fromkeys" and len(d.args) == 1:
+                    consts = [False] if form == "member" else []
+                ok_init = (bool(consts) and all(c is False for c in consts)) if consts else None
+                if form == "member" and consts:
+                    ok_init = None
+        inits = [s for s in au.stmts(fn.body) if isinstance(s, ast.Assign) and isinstance(s.targets[0], ast.Subscript)
+                 and au.src(s.targets[0].value) == K and not any(s is x for x in au.stmts(outer.body))]
+        if ok_init and any(au.const(s.value) is not False for s in inits):
+            ok_init = None
+        if ok_init is None:
+            ctx.undecided("C15-B1", site, f"{name}: the initial state of the visited container is not recognised", "")
+        else:
+            ctx.check(ok_init, "C15-B1", site, f"{name}: the visited container does not start with every border vertex unvisited",
+                      "a vertex that starts out visited is never used as a starting point: its loop is lost", note=f"{name}: visited starts empty / all False")
+    return {"fn0": fn0, "fn": fn, "S": S, "outer": outer, "block": blk, "stmt": st, "mesh": mesh, "v": v, "denotes": denotes, "cyc": cyc, "site": site}
+
+
+def _same_block_or_after(blk, node):
+    t = H.top_stmt_in(blk, node)
+    return t is not None
 
 
 def b1_boundary(ctx):
-    repo = ctx.repo
-    fl = H.Floor(ctx, "C15-B1")
     # ---- extract_border_cycle_all
-    fn = repo.func(BORD, "extract_border_cycle_all")
-    site = ctx.site(BORD, fn)
-    info = _cycle_collector(ctx, fn, False)
+    info = _collector(ctx, "extract_border_cycle_all")
     if info:
-        apps = [c for c in au.calls(fn) if isinstance(c.func, ast.Attribute) and c.func.attr == "append"
-                and len(c.args) == 1 and H.is_name(c.args[0], info["cyc_v"])]
-        ok = len(apps) == 1 and au.enclosing_stmt(apps[0]) in info["block"] and isinstance(apps[0].func.value, ast.Name)
+        fn0, fn, S, blk, st = info["fn0"], info["fn"], info["S"], info["block"], info["stmt"]
+        site = info["site"]
         rets = [r for r in au.walk(fn) if isinstance(r, ast.Return)]
-        ok = ok and len(rets) == 1 and H.is_name(rets[0].value, apps[0].func.value.id) and rets[0] in fn.body
-        ctx.check(ok, "C15-B1", site, "extract_border_cycle_all: each extracted cycle is not appended exactly once to the returned list",
-                  "the number of cycles returned equals the number of border loops", note="one append per extracted cycle, list returned")
+        R = rets[0].value.id if len(rets) == 1 and isinstance(rets[0].value, ast.Name) and any(rets[0] is x for x in fn.body) else None
+        if R is None:
+            ctx.undecided("C15-B1", site, "extract_border_cycle_all: the returned list is not recognised", "")
+        else:
+            apps = [c for c in au.calls(fn) if au.call_tail(c) == "append" and isinstance(c.func, ast.Attribute) and H.is_name(c.func.value, R)]
+            d = S.value(R, info["outer"])
+            if len(apps) != 1 or d is None or H.is_empty_container(d) != "list":
+                ctx.undecided("C15-B1", site, "extract_border_cycle_all: the filling of the returned list is not recognised", "")
+            else:
+                a = apps[0]
+                in_block = H.top_stmt_in(blk, a) is not None and H.block_pos(H.top_stmt_in(blk, a)) > H.block_pos(st) \
+                    and not H.loop_ancestors(a, stop=info["outer"]) and not [1 for t, p, at in H.path_condition(a, stop=info["outer"])
+                                                                            if not any(t is t2 for t2, _, _ in H.path_condition(st, stop=info["outer"]))]
+                is_v, is_e = info["denotes"](a.args[0], a, "v"), info["denotes"](a.args[0], a, "e")
+                outside = any(au.enclosing_stmt(a) is z for z in info["outer"].body) and not any(au.enclosing_stmt(a) is z for z in blk) \
+                    and isinstance(a.args[0], ast.Name) and a.args[0].id in info["cyc"].values()
+                if outside:
+                    ctx.fail("C15-B1", ctx.site(BORD, fn0, a), "extract_border_cycle_all: each extracted cycle is not appended exactly once to the returned list",
+                             "the append is outside the `not visited` block: it runs once per border vertex, the same cycle is returned many times")
+                elif is_e:
+                    ctx.fail("C15-B1", ctx.site(BORD, fn0, a), "extract_border_cycle_all: the edge list of a cycle is appended instead of its vertex list", "")
+                elif is_v and in_block:
+                    ctx.ok("C15-B1", ctx.site(BORD, fn0, a), "one append per extracted cycle, list returned")
+                elif is_v and H.loop_ancestors(a, stop=info["outer"]):
+                    ctx.fail("C15-B1", ctx.site(BORD, fn0, a), "extract_border_cycle_all: each extracted cycle is not appended exactly once to the returned list",
+                             "the cycle is appended inside an inner loop: the number of cycles returned must equal the number of border loops")
+                else:
+                    ctx.undecided("C15-B1", ctx.site(BORD, fn0, a), "extract_border_cycle_all: the element appended to the returned list is not recognised", "")
     # ---- extract_boundary_of_surface
-    fn = repo.func(BORD, "extract_boundary_of_surface")
-    site = ctx.site(BORD, fn)
-    info = _cycle_collector(ctx, fn, True)
+    info = _collector(ctx, "extract_boundary_of_surface")
     if info:
-        mesh, mark = info["mesh"], info["mark"]
-        if mark is None:
-            return
-        x = mark.target.id
-        # map store: M[x] = off
-        mstores = [(s, s.targets[0]) for s in mark.body if isinstance(s, ast.Assign) and len(s.targets) == 1
-                   and isinstance(s.targets[0], ast.Subscript) and isinstance(s.targets[0].value, ast.Name)
-                   and H.is_name(s.targets[0].slice, x) and isinstance(s.value, ast.Name)
-                   and s.targets[0].value.id != info["vis"]]
-        # the offset is the name that is incremented inside the vertex loop
-        apps = [c for c in au.calls(fn) if isinstance(c.func, ast.Attribute) and c.func.attr == "append"
-                and au.src(c.func.value).endswith(".vertices")]
-        bound = au.src(apps[0].func.value)[:-len(".vertices")] if apps else None
-        # accepted alternative (fresh-index idiom): map[v] = len(bound.vertices) read before the append of that vertex
-        fresh = [(s, s.targets[0]) for s in mark.body if isinstance(s, ast.Assign) and len(s.targets) == 1
-                 and isinstance(s.targets[0], ast.Subscript) and isinstance(s.targets[0].value, ast.Name)
-                 and H.is_name(s.targets[0].slice, x) and bound and au.src(s.value) == f"len({bound}.vertices)"]
-        off = None
-        if len(fresh) == 1:
-            mst, mt = fresh[0]
-            mp = mt.value.id
-            ok_app = len(apps) == 1 and au.enclosing_stmt(apps[0]) in mark.body and len(apps[0].args) == 1 \
-                and au.src(apps[0].args[0]) == f"{mesh}.vertices[{x}]"
-            ctx.check(ok_app, "C15-B1", ctx.site(BORD, fn, mark),
-                      "extract_boundary_of_surface: not exactly one `bound.vertices.append(mesh.vertices[v])` per visited vertex",
-                      "vertex k of the polyline must be the k-th visited border vertex", note="one vertex appended per visited vertex")
-            ctx.check(ok_app and H.block_pos(mst) < H.block_pos(au.enclosing_stmt(apps[0])), "C15-B1", ctx.site(BORD, fn, mst),
-                      f"extract_boundary_of_surface: `{mp}[v]` reads len(polyline vertices) after the vertex has been appended",
+        _boundary_polyline(ctx, info)
+
+
+def _boundary_polyline(ctx, info):
+    fn0, fn, S, blk, st, outer, mesh, denotes = (info[k] for k in ("fn0", "fn", "S", "block", "stmt", "outer", "mesh", "denotes"))
+    site = info["site"]
+    name = "extract_boundary_of_surface"
+    # ---- what is returned
+    rets = [r for r in au.walk(fn) if isinstance(r, ast.Return)]
+    if len(rets) != 1 or not (isinstance(rets[0].value, ast.Tuple) and len(rets[0].value.elts) == 2 and all(isinstance(x, ast.Name) for x in rets[0].value.elts)):
+        ctx.undecided("C15-B1", site, f"{name}: the exit returning (polyline, index map) is not recognised", "")
+        return
+    bound, M = (x.id for x in rets[0].value.elts)
+    bdef = S.value(bound, outer)
+    if not (isinstance(bdef, ast.Call) and not bdef.args and not bdef.keywords):
+        ctx.undecided("C15-B1", site, f"{name}: the creation of the (empty) polyline is not recognised", "")
+        return
+    ctx.ok("C15-B1", site, "polyline starts empty")
+    after = blk[H.block_pos(st) + 1:]
+    # ---- the loop over the vertices of the cycle
+    vloops = []
+    for s in au.stmts(after):
+        if isinstance(s, ast.For):
+            elem, idx, seq, start = H.loop_elem(s)
+            if isinstance(elem, ast.Name) and denotes(seq, s, "v") and any(
+                    au.call_tail(c) == "append" and isinstance(c.func, ast.Attribute) and au.src(S.canon(c.func.value, c, keep=(bound,))) == f"{bound}.vertices"
+                    for c in au.calls(s)):
+                vloops.append((s, elem.id, idx, start))
+    if len(vloops) != 1 or H.path_condition(vloops[0][0], stop=outer) != H.path_condition(st, stop=outer) and \
+            [au.norm(t) for t, p, a in H.path_condition(vloops[0][0], stop=outer)] != [au.norm(t) for t, p, a in H.path_condition(st, stop=outer)]:
+        ctx.undecided("C15-B1", site, f"{name}: the loop over the vertices of an extracted cycle is not recognised", "")
+        return
+    vl, x, vidx, vstart = vloops[0]
+    vsite = ctx.site(BORD, fn0, vl)
+    direct = [s for s in vl.body]
+
+    def uncond(s):
+        return any(s is q for q in direct)
+    # vertex append
+    vapps = [c for c in au.calls(vl) if au.call_tail(c) == "append" and isinstance(c.func, ast.Attribute)
+             and au.src(S.canon(c.func.value, c, keep=(bound,))) == f"{bound}.vertices"]
+    all_vapps = [c for c in au.calls(fn) if au.call_tail(c) == "append" and isinstance(c.func, ast.Attribute)
+                 and au.src(S.canon(c.func.value, c, keep=(bound,))) == f"{bound}.vertices"]
+    if len(vapps) != 1 or len(all_vapps) != 1 or not uncond(au.enclosing_stmt(vapps[0])):
+        ctx.undecided("C15-B1", vsite, f"{name}: the statement appending the position of each visited vertex to the polyline is not recognised", "")
+        return
+    vapp = au.enclosing_stmt(vapps[0])
+    pos_c = S.canon(vapps[0].args[0], vapps[0], keep=(x,))
+    reads = [au.src(n) for n in ast.walk(pos_c) if isinstance(n, ast.Subscript) and au.src(n.value) == f"{mesh}.vertices"]
+    if au.src(pos_c) == f"{mesh}.vertices[{x}]" or (reads == [f"{mesh}.vertices[{x}]"] and isinstance(pos_c, ast.Call) and len(pos_c.args) == 1):
+        ctx.ok("C15-B1", ctx.site(BORD, fn0, vapp), "one vertex appended per visited vertex")
+    elif reads and all(r != f"{mesh}.vertices[{x}]" for r in reads) and isinstance(pos_c, ast.Subscript):
+        ctx.fail("C15-B1", ctx.site(BORD, fn0, vapp), f"{name}: the vertex appended to the polyline is not mesh.vertices[v] of the visited vertex",
+                 f"found `{au.src(pos_c)[:60]}`: vertex k of the polyline must be the k-th visited border vertex")
+    else:
+        ctx.undecided("C15-B1", ctx.site(BORD, fn0, vapp), f"{name}: the position appended to the polyline is not recognised", "")
+    # ---- index map
+    mstores = [s for s in au.stmts(vl.body) if isinstance(s, ast.Assign) and len(s.targets) == 1 and isinstance(s.targets[0], ast.Subscript)
+               and H.is_name(s.targets[0].value, M) and H.is_name(s.targets[0].slice, x)]
+    other_m = [s for s, t, v in H.subscript_stores(fn, lambda b: H.is_name(b, M)) if all(s is not q for q in mstores)]
+    off = None
+    if len(mstores) != 1 or not uncond(mstores[0]) or other_m:
+        ctx.undecided("C15-B1", vsite, f"{name}: the store of the new index of a visited vertex into the index map is not recognised", "")
+    else:
+        ms = mstores[0]
+        val = ms.value
+        valc = S.canon(val, ms, keep=(x, bound) + ((vidx,) if vidx else ()))
+        msite = ctx.site(BORD, fn0, ms)
+        pos = {id(s): i for i, s in enumerate(direct)}
+        if au.src(valc) == f"len({bound}.vertices)":
+            ctx.check(pos[id(ms)] < pos[id(vapp)], "C15-B1", msite, f"{name}: the index map reads len(polyline vertices) after the vertex has been appended",
                       "the map would point to the next vertex (off by one)", note="fresh index read before the append")
-        else:
-            offs = [(s, t, s.value.id) for s, t in mstores if any(H.increments(q, s.value.id) is not None for q in au.stmts(mark.body))]
-            if len(offs) != 1:
-                ctx.fail("C15-B1", ctx.site(BORD, fn, mark), "extract_boundary_of_surface: store `map[v] = running offset` not found in the vertex loop",
-                         "the index map must send each border vertex to its position in the polyline")
-                return
-            mst, mt, off = offs[0]
-            mp = mt.value.id
-            incs = [(q, H.increments(q, off)) for q in au.stmts(fn.body) if H.increments(q, off) is not None]
+        elif isinstance(valc, ast.Constant) and isinstance(val, ast.Name) and not any(au.increment(q) is not None and au.increment(q)[0] == val.id for q in au.stmts(fn.body)):
+            ctx.fail("C15-B1", msite, f"{name}: the running offset stored in the index map is never advanced",
+                     "every border vertex is mapped to the same index: the offset must equal the number of vertices already appended to the polyline")
+        elif isinstance(valc, ast.Name) and vidx and valc.id == vidx:
+            ctx.fail("C15-B1", msite, f"{name}: the index stored in the index map is the position inside the cycle, without the offset of the cycle",
+                     "the numbering restarts at 0 for every border loop: with two or more loops several border vertices share one polyline index")
+        elif isinstance(valc, ast.Name):
+            off = valc.id
+            incs = [(q, au.increment(q)) for q in au.stmts(fn.body) if au.increment(q) is not None and au.increment(q)[0] == off]
             writes = [q for q in au.stmts(fn.body) if any(off in au.assigned_names(t) for t in au.assign_targets(q))]
-            init = [q for q in writes if q in fn.body and isinstance(q, ast.Assign) and au.const(q.value) == 0
-                    and q.lineno < info["outer"].lineno]
-            apps = [c for c in au.calls(fn) if isinstance(c.func, ast.Attribute) and c.func.attr == "append"
-                    and au.src(c.func.value).endswith(".vertices")]
-            bound = au.src(apps[0].func.value)[:-len(".vertices")] if apps else None
-            ok_inc = len(incs) == 1 and incs[0][1] == 1 and incs[0][0] in mark.body and len(writes) == 2 and len(init) == 1
-            ctx.check(ok_inc, "C15-B1", ctx.site(BORD, fn, mark),
-                      f"extract_boundary_of_surface: running offset `{off}` is not `0, then += 1 once per visited vertex`",
-                      "the offset must equal the number of vertices already appended to the polyline (indices 0..n-1)",
-                      note=f"offset {off}: 0 then +1 per vertex")
-            ok_app = len(apps) == 1 and au.enclosing_stmt(apps[0]) in mark.body and len(apps[0].args) == 1 \
-                and au.src(apps[0].args[0]) == f"{mesh}.vertices[{x}]"
-            ctx.check(ok_app, "C15-B1", ctx.site(BORD, fn, mark),
-                      "extract_boundary_of_surface: not exactly one `bound.vertices.append(mesh.vertices[v])` per visited vertex",
-                      "vertex k of the polyline must be the k-th visited border vertex", note="one vertex appended per visited vertex")
-            ok_order = ok_inc and mst in mark.body and H.block_pos(mst) < H.block_pos(incs[0][0])
-            ctx.check(ok_order, "C15-B1", ctx.site(BORD, fn, mst),
-                      f"extract_boundary_of_surface: `{mp}[v]` reads the offset after it has been advanced",
-                      "the map would point to the next vertex (off by one)", note="offset read before increment")
-        # polyline starts empty
-        bdef = [s for s in fn.body if isinstance(s, ast.Assign) and bound and any(H.is_name(t, bound) for t in s.targets)]
-        ctx.check(len(bdef) == 1 and isinstance(bdef[0].value, ast.Call) and not bdef[0].value.args and not bdef[0].value.keywords,
-                  "C15-B1", site, "extract_boundary_of_surface: the polyline does not start empty",
-                  "offset 0 must be the index of the first appended vertex", note="polyline starts empty")
-        # component counter: a name stored per vertex and incremented once per cycle
-        cstores = [(s, s.value.id) for s in mark.body if isinstance(s, ast.Assign) and len(s.targets) == 1
-                   and isinstance(s.targets[0], ast.Subscript) and isinstance(s.value, ast.Name) and s.value.id != off
-                   and any(H.increments(q, s.value.id) is not None for q in au.stmts(fn.body))]
-        if len(cstores) != 1:
-            ctx.fail("C15-B1", ctx.site(BORD, fn, mark), "extract_boundary_of_surface: component counter store not found in the vertex loop",
-                     "vertices of one loop share a component number")
+            init = S.value(off, outer)
+            if not incs and len(writes) == 1 and init is not None and au.const(init) is not None:
+                ctx.fail("C15-B1", msite, f"{name}: the running offset stored in the index map is never advanced",
+                         "every border vertex is mapped to the same index: the offset must equal the number of vertices already appended to the polyline")
+            elif len(incs) != 1 or len(writes) != 2 or init is None:
+                ctx.undecided("C15-B1", msite, f"{name}: the running offset stored in the index map is not a counter with one initialisation and one increment", "")
+            else:
+                q, (_, sign, amount) = incs[0]
+                k = au.const(S.canon(amount, q))
+                in_vl = uncond(q)
+                problems = []
+                if au.const(init) != 0:
+                    problems.append(f"starts at {au.src(init)}")
+                if sign != 1 or k != 1:
+                    problems.append(f"advanced by {'-' if sign < 0 else ''}{au.src(amount)}")
+                if not in_vl:
+                    problems.append("not advanced once per visited vertex" if any(q is z for z in au.stmts(outer.body)) else "advanced outside the loops")
+                ctx.check(not problems, "C15-B1", vsite, f"{name}: the running offset is not `0, then += 1 once per visited vertex`",
+                          "the offset must equal the number of vertices already appended to the polyline (indices 0..n-1): " + ", ".join(problems),
+                          note="offset: 0 then +1 per vertex")
+                if in_vl and not problems:
+                    ctx.check(pos[id(ms)] < pos[id(q)], "C15-B1", msite, f"{name}: the index map reads the offset after it has been advanced",
+                              "the map would point to the next vertex (off by one)", note="offset read before increment")
         else:
-            cn = cstores[0][1]
-            cincs = [(q, H.increments(q, cn)) for q in au.stmts(fn.body) if H.increments(q, cn) is not None]
-            cwrites = [q for q in au.stmts(fn.body) if any(cn in au.assigned_names(t) for t in au.assign_targets(q))]
-            cinit = [q for q in cwrites if q in fn.body and isinstance(q, ast.Assign) and au.const(q.value) == 0]
-            okc = len(cincs) == 1 and cincs[0][1] == 1 and cincs[0][0] in info["block"] and len(cwrites) == 2 and len(cinit) == 1
-            ctx.check(okc, "C15-B1", ctx.site(BORD, fn, mark),
-                      f"extract_boundary_of_surface: component counter `{cn}` is not advanced by one exactly once per extracted cycle",
-                      "the number of components equals the number of border loops; a per-vertex or unconditional step mislabels them",
-                      note=f"component counter {cn}: +1 per cycle")
-        # edges: gathered from the cycle's edge list, then both endpoints remapped
-        gathered = False
-        for s in info["block"]:
-            if isinstance(s, ast.AugAssign) and isinstance(s.op, ast.Add) and bound and au.src(s.target) == f"{bound}.edges":
-                v = s.value
-                if isinstance(v, ast.ListComp) and len(v.generators) == 1 and H.is_name(v.generators[0].iter, info["cyc_e"]) \
-                        and not v.generators[0].ifs and isinstance(v.generators[0].target, ast.Name) \
-                        and au.src(v.elt) == f"{mesh}.edges[{v.generators[0].target.id}]":
-                    gathered = True
-            for c in au.calls(s) if isinstance(s, ast.Expr) else []:
-                if au.call_tail(c) in ("extend",) and bound and au.src(c.func.value) == f"{bound}.edges" and c.args:
-                    v = c.args[0]
-                    if isinstance(v, (ast.ListComp, ast.GeneratorExp)) and len(v.generators) == 1 and H.is_name(v.generators[0].iter, info["cyc_e"]) \
-                            and not v.generators[0].ifs and isinstance(v.generators[0].target, ast.Name) \
-                            and au.src(v.elt) == f"{mesh}.edges[{v.generators[0].target.id}]":
-                        gathered = True
-        ctx.check(gathered, "C15-B1", ctx.site(BORD, fn, info["stmt"]),
-                  "extract_boundary_of_surface: the polyline does not receive mesh.edges[e] for every edge e of the extracted cycle",
-                  "the border polyline consists of exactly the border edges", note="edges of each cycle gathered")
-        remap = None
-        for s in fn.body:
-            if isinstance(s, ast.For) and isinstance(s.iter, ast.Call) and au.call_tail(s.iter) == "enumerate" and s.iter.args \
-                    and bound and au.src(s.iter.args[0]) == f"{bound}.edges" and s.lineno > info["outer"].lineno:
-                remap = s
-        ok_remap = False
-        if remap is not None and isinstance(remap.target, ast.Tuple) and len(remap.target.elts) == 2 \
-                and isinstance(remap.target.elts[0], ast.Name) and isinstance(remap.target.elts[1], (ast.Tuple, ast.List)) \
-                and len(remap.target.elts[1].elts) == 2 and all(isinstance(q, ast.Name) for q in remap.target.elts[1].elts):
-            ei = remap.target.elts[0].id
-            a, b = (q.id for q in remap.target.elts[1].elts)
-            for s in remap.body:
-                if isinstance(s, ast.Assign) and len(s.targets) == 1 and au.src(s.targets[0]) == f"{bound}.edges[{ei}]" and s in remap.body:
-                    val = s.value
-                    elts = val.args if isinstance(val, ast.Call) and au.call_tail(val) in ("keyify", "tuple", "sorted") else \
-                        val.elts if isinstance(val, (ast.Tuple, ast.List)) else []
+            # offset + position in the cycle, offset advanced by the length of the cycle once per cycle
+            ok3 = False
+            if vidx and au.const(vstart) == 0 and isinstance(valc, ast.BinOp) and isinstance(valc.op, ast.Add):
+                ns = [valc.left, valc.right]
+                o = [n for n in ns if isinstance(n, ast.Name) and n.id != vidx]
+                if len(o) == 1 and any(H.is_name(n, vidx) for n in ns):
+                    off = o[0].id
+                    incs = [(q, au.increment(q)) for q in au.stmts(fn.body) if au.increment(q) is not None and au.increment(q)[0] == off]
+                    if len(incs) == 1 and au.const(S.value(off, outer)) == 0:
+                        q, (_, sign, amount) = incs[0]
+                        a = S.canon(amount, q)
+                        is_len = isinstance(a, ast.Call) and au.call_tail(a) == "len" and len(a.args) == 1 and denotes(a.args[0], q, "v")
+                        in_blk = any(q is z for z in blk) and H.block_pos(q) > H.block_pos(vl) if any(vl is z for z in blk) else False
+                        if sign == 1 and is_len and in_blk:
+                            ok3 = True
+            if ok3:
+                ctx.ok("C15-B1", msite, "index = offset of the cycle + position in the cycle")
+            else:
+                ctx.undecided("C15-B1", msite, f"{name}: the value stored in the index map is not a recognised running index", "")
+    # ---- component counter
+    cstores = []
+    for s in au.stmts(vl.body):
+        if isinstance(s, ast.Assign) and len(s.targets) == 1 and isinstance(s.targets[0], ast.Subscript) and H.is_name(s.targets[0].slice, x):
+            r = S.canon(s.targets[0].value, s, keep=(bound,))
+            if isinstance(r, ast.Call) and au.call_tail(r) == "create_attribute" and r.args and au.const(r.args[0]) == "component":
+                cstores.append(s)
+    if len(cstores) != 1 or not uncond(cstores[0]):
+        ctx.undecided("C15-B1", vsite, f"{name}: the store of the component number of a visited vertex is not recognised", "")
+    else:
+        cs = cstores[0]
+        cv = S.canon(cs.value, cs)
+        cs_site = ctx.site(BORD, fn0, cs)
+        if isinstance(cv, ast.Constant) and isinstance(cs.value, ast.Name):
+            ctx.fail("C15-B1", cs_site, f"{name}: the component counter is never advanced",
+                     "the number of components equals the number of border loops")
+        elif not isinstance(cv, ast.Name):
+            ctx.undecided("C15-B1", cs_site, f"{name}: the component number is not a counter variable", "")
+        else:
+            cn = cv.id
+            incs = [(q, au.increment(q)) for q in au.stmts(fn.body) if au.increment(q) is not None and au.increment(q)[0] == cn]
+            init = S.value(cn, outer)
+            if not incs:
+                if au.const(init) is not None:
+                    ctx.fail("C15-B1", cs_site, f"{name}: the component counter is never advanced",
+                             "the number of components equals the number of border loops")
+                else:
+                    ctx.undecided("C15-B1", cs_site, f"{name}: the component number is not a recognised counter", "")
+            elif len(incs) > 1:
+                ctx.undecided("C15-B1", cs_site, f"{name}: the component counter is advanced at several places", "")
+            else:
+                q, (_, sign, amount) = incs[0]
+                k = au.const(S.canon(amount, q))
+                per_cycle = any(q is z for z in blk)
+                in_vertex_loop = any(q is z for z in au.stmts(vl.body))
+                if per_cycle and sign == 1 and k == 1:
+                    ctx.ok("C15-B1", cs_site, "component counter: +1 per cycle")
+                elif in_vertex_loop or not any(q is z for z in au.stmts(outer.body)) or any(q is z for z in outer.body) or k != 1 or sign != 1:
+                    ctx.fail("C15-B1", cs_site, f"{name}: the component counter is not advanced by one exactly once per extracted cycle",
+                             "the number of components equals the number of border loops; a per-vertex or unconditional step mislabels them")
+                else:
+                    ctx.undecided("C15-B1", cs_site, f"{name}: the place where the component counter is advanced is not recognised", "")
+    # ---- edges
+    eapps = [c for c in au.calls(fn) if au.call_tail(c) == "append" and isinstance(c.func, ast.Attribute)
+             and au.src(S.canon(c.func.value, c, keep=(bound,))) == f"{bound}.edges" and len(c.args) == 1]
+    if len(eapps) != 1:
+        ctx.undecided("C15-B1", site, f"{name}: the statement adding the edges of a cycle to the polyline is not recognised", "")
+        return
+    ea = eapps[0]
+    esite = ctx.site(BORD, fn0, ea)
+    lps = H.for_ancestors(ea, stop=outer)
+    gathered = False
+    if len(lps) == 1:
+        elem, idx, seq, start = H.loop_elem(lps[0])
+        if idx is None and isinstance(elem, ast.Name) and denotes(seq, lps[0], "e") and not H.path_condition(ea, stop=lps[0]) \
+                and any(lps[0] is z for z in blk):
+            if au.src(S.canon(ea.args[0], ea, keep=(elem.id,))) == f"{mesh}.edges[{elem.id}]":
+                gathered = True
+    if not gathered and len(lps) == 1 and denotes(H.loop_elem(lps[0])[2], lps[0], "v") \
+            and isinstance(H.loop_elem(lps[0])[0], ast.Name) and au.src(S.canon(ea.args[0], ea, keep=(H.loop_elem(lps[0])[0].id,))) == f"{mesh}.edges[{H.loop_elem(lps[0])[0].id}]":
+        ctx.fail("C15-B1", esite, f"{name}: the polyline receives mesh.edges[v] for the *vertices* of the extracted cycle",
+                 "the border polyline consists of exactly the border edges: the edge list of the cycle must be used")
+        return
+    if gathered:
+        ctx.ok("C15-B1", esite, "edges of each cycle gathered")
+        remaps = []
+        pos_outer = H.block_pos(H.top_stmt_in(fn.body, outer))
+        for s in fn.body[pos_outer + 1:]:
+            if isinstance(s, ast.For):
+                elem, idx, seq, start = H.loop_elem(s)
+                sq = S.canon(seq, s, keep=(bound,))
+                if au.src(sq) == f"{bound}.edges":
+                    remaps.append((s, elem, idx, start))
+                elif idx is None and isinstance(elem, ast.Name) and H.is_range_len(sq, f"{bound}.edges"):
+                    remaps.append((s, elem, elem.id, ast.Constant(value=0)))
+        if len(remaps) != 1 or remaps[0][2] is None or au.const(remaps[0][3]) != 0:
+            ctx.undecided("C15-B1", site, f"{name}: the pass that rewrites the polyline edges with the new vertex indices is not recognised", "")
+        else:
+            rl, elem, k, _ = remaps[0]
+            sts = [s for s in rl.body if isinstance(s, ast.Assign) and len(s.targets) == 1 and au.src(S.canon(s.targets[0], s, keep=(k, bound))) == f"{bound}.edges[{k}]"]
+            if len(sts) != 1:
+                ctx.undecided("C15-B1", ctx.site(BORD, fn0, rl), f"{name}: the store rewriting a polyline edge is not recognised", "")
+            else:
+                val = S.canon(sts[0].value, sts[0], keep=(k, bound, M))
+                elts = None
+                if isinstance(val, ast.Call) and au.call_tail(val) in ("keyify", "tuple", "sorted", "list") and val.args:
+                    elts = val.args
                     if len(elts) == 1 and isinstance(elts[0], (ast.Tuple, ast.List)):
                         elts = elts[0].elts
+                elif isinstance(val, (ast.Tuple, ast.List)):
+                    elts = val.elts
+                want = sorted([f"{M}[{bound}.edges[{k}][0]]", f"{M}[{bound}.edges[{k}][1]]"])
+                if elts is None or len(elts) != 2:
+                    ctx.undecided("C15-B1", ctx.site(BORD, fn0, sts[0]), f"{name}: the value rewriting a polyline edge is not a pair", "")
+                else:
                     got = sorted(au.src(q) for q in elts)
-                    ok_remap = got == sorted([f"{mp}[{a}]", f"{mp}[{b}]"]) and a != b
-        ctx.check(ok_remap, "C15-B1", ctx.site(BORD, fn, remap or fn),
-                  f"extract_boundary_of_surface: edges are not rewritten as ({mp}[A], {mp}[B]) for both endpoints after all cycles are collected",
-                  "polyline edges must index polyline vertices", note="both endpoints of every edge remapped")
-        rets = [r for r in au.walk(fn) if isinstance(r, ast.Return)]
-        okr = len(rets) == 1 and isinstance(rets[0].value, ast.Tuple) and len(rets[0].value.elts) == 2 \
-            and H.is_name(rets[0].value.elts[0], bound) and H.is_name(rets[0].value.elts[1], mp)
-        ctx.check(okr, "C15-B1", site, "extract_boundary_of_surface does not return (polyline, index map)",
-                  "callers need the map back to the surface", note="returns (polyline, map)")
-    fl.require(16)
+                    if all(g in want for g in got) or got == want:
+                        ctx.check(got == want, "C15-B1", ctx.site(BORD, fn0, sts[0]),
+                                  f"{name}: edges are not rewritten as (map[A], map[B]) for both endpoints after all cycles are collected",
+                                  f"found {got}: polyline edges must index polyline vertices", note="both endpoints of every edge remapped")
+                    else:
+                        raw = [q for q in got if not q.startswith(f"{M}[")]
+                        if raw and all(q in (f"{bound}.edges[{k}][0]", f"{bound}.edges[{k}][1]") for q in raw):
+                            ctx.fail("C15-B1", ctx.site(BORD, fn0, sts[0]),
+                                     f"{name}: edges are not rewritten as (map[A], map[B]) for both endpoints after all cycles are collected",
+                                     f"found {got}: an endpoint keeps its index in the surface mesh")
+                        else:
+                            ctx.undecided("C15-B1", ctx.site(BORD, fn0, sts[0]), f"{name}: the endpoints of a rewritten polyline edge are not recognised", "")
+    else:
+        # edges written directly with the new indices: a wrap-around modulo the cycle length must not include the running offset
+        carried = {au.increment(q)[0] for q in au.stmts(outer.body) if au.increment(q) is not None}
+        bad = None
+        val = S.canon(ea.args[0], ea, keep=tuple(carried))
+        for n in ast.walk(val):
+            if isinstance(n, ast.BinOp) and isinstance(n.op, ast.Mod):
+                r = n.right
+                is_len = isinstance(r, ast.Call) and au.call_tail(r) == "len" and len(r.args) == 1 and \
+                    (isinstance(r.args[0], ast.Subscript) and isinstance(r.args[0].value, ast.Call) and au.call_tail(r.args[0].value) == "extract_border_cycle")
+                if is_len and any(isinstance(z, ast.Name) and z.id in carried and z.id != (vidx or "") for z in ast.walk(n.left)):
+                    bad = n
+        if bad is not None:
+            ctx.fail("C15-B1", esite, f"{name}: a polyline edge index wraps around modulo the cycle length with the running offset inside the modulo",
+                     f"`{au.src(bad)}`: for every cycle but the first the closing edge (and all others) point to vertices of earlier cycles; "
+                     "the wrap-around applies to the position in the cycle, the offset is added afterwards")
+        else:
+            ctx.undecided("C15-B1", esite, f"{name}: the edges added to the polyline are not `mesh.edges[e]` for the edges of the extracted cycle", "")
+    ctx.ok("C15-B1", site, "returns (polyline, map)")
+
+
+# =========================================================================== C15-A1: the extraction only reads the mesh
+MUTATORS = {"pop", "remove", "append", "extend", "insert", "clear", "sort", "reverse", "popitem", "update", "add", "discard", "setdefault", "__setitem__", "__delitem__"}
+
+
+def a1_readonly(ctx):
+    m = ctx.repo.module(BORD)
+    n_sites = 0
+    for qual, fn in m.funcs.items():
+        if "<locals>" in qual or "volume" in fn.name:
+            continue
+        ps = au.params(fn)
+        if not ps:
+            continue
+        mesh = ps[0]
+        S = hj_scope.Scope(fn)
+        site = ctx.site(BORD, fn)
+
+        def container_of(e, at):
+            """'<mesh>.<attr>' when e denotes a container owned by the mesh argument (not a copy)"""
+            c = S.canon(e, at)
+            ch = au.chain(c)
+            if ch and len(ch) >= 2 and ch[0] == mesh and ch[1] not in ("connectivity",):
+                return ".".join(ch)
+            return None
+        found = []
+        for n in au.walk(fn):
+            if isinstance(n, ast.Call) and isinstance(n.func, ast.Attribute) and n.func.attr in MUTATORS:
+                k = container_of(n.func.value, n)
+                if k:
+                    found.append((n, f"{k}.{n.func.attr}(...)"))
+            elif isinstance(n, (ast.Assign, ast.AugAssign)):
+                for t in au.assign_targets(n):
+                    for x in ([t] if not isinstance(t, (ast.Tuple, ast.List)) else t.elts):
+                        if isinstance(x, ast.Subscript):
+                            k = container_of(x.value, n)
+                            if k:
+                                found.append((n, f"{k}[...] = ..."))
+                        elif isinstance(n, ast.AugAssign) and isinstance(x, (ast.Name, ast.Attribute)):
+                            k = container_of(x, n) if isinstance(x, ast.Attribute) else (container_of(x, n) if S.value(x.id, n) is not None else None)
+                            if k and isinstance(n.op, (ast.Add, ast.BitOr, ast.Sub, ast.Mult)):
+                                found.append((n, f"{k} {type(n.op).__name__}= ..."))
+            elif isinstance(n, ast.Delete):
+                for t in n.targets:
+                    if isinstance(t, ast.Subscript):
+                        k = container_of(t.value, n)
+                        if k:
+                            found.append((n, f"del {k}[...]"))
+        n_sites += 1
+        if found:
+            for node, what in found:
+                ctx.fail("C15-A1", ctx.site(BORD, fn, node), f"{fn.name} modifies a container of the mesh in place: {what.split('(')[0].split('[')[0].split(' ')[-1] if False else what}",
+                         "the container is the one cached inside the mesh (not a copy): after the call the mesh has lost / gained border vertices or edges, "
+                         "every later border query on the same mesh returns a wrong result")
+        else:
+            ctx.ok("C15-A1", site, f"{fn.name}: mesh containers only read")
 
 
 # =========================================================================== the walk
 def w1_walk(ctx):
-    fn = ctx.repo.func(BORD, "extract_border_cycle")
-    site = ctx.site(BORD, fn)
-    fl = H.Floor(ctx, "C15-W1")
-    ps = au.params(fn)
-    mesh, start = (ps + [None, None])[:2]
-    whiles = [s for s in fn.body if isinstance(s, ast.While)]
-    if len(whiles) != 1 or start is None:
-        ctx.fail("C15-W1", site, "extract_border_cycle: the `while` walk over (mesh, starting_point) not found", "")
+    fn0 = ctx.repo.func(BORD, "extract_border_cycle")
+    site = ctx.site(BORD, fn0)
+    try:
+        F = H.walk_facts(ctx)
+    except H.Contradiction as c:
+        ctx.fail("C15-W1", ctx.site(BORD, fn0, c.node) if c.node is not None else site, c.construct, c.what)
+        H.check_sort_contract(ctx, "C15-W1")
         return
-    wl = whiles[0]
-    # the step: tuple assignment (prev, cur) = (cur, v) inside a for over vertex_to_vertices(cur)
-    step = None
-    for s in au.stmts(wl.body):
-        if isinstance(s, ast.Assign) and len(s.targets) == 1 and isinstance(s.targets[0], ast.Tuple) and len(s.targets[0].elts) == 2 \
-                and all(isinstance(x, ast.Name) for x in s.targets[0].elts) and isinstance(s.value, ast.Tuple) and len(s.value.elts) == 2:
-            step = s
-    seq = None
-    if step is None:
-        # sequential form: prev = cur ; cur = v
-        for s in au.stmts(wl.body):
-            blk, _ = au.enclosing_block(s)
-            i = H.block_pos(s)
-            if isinstance(s, ast.Assign) and len(s.targets) == 1 and isinstance(s.targets[0], ast.Name) and isinstance(s.value, ast.Name) \
-                    and blk and i + 1 < len(blk):
-                s2 = blk[i + 1]
-                if isinstance(s2, ast.Assign) and len(s2.targets) == 1 and H.is_name(s2.targets[0], s.value.id) \
-                        and isinstance(s2.value, ast.Name) and s2.value.id not in (s.value.id, s.targets[0].id):
-                    seq = (s, s2)
-    if step is None and seq is None:
-        ctx.fail("C15-W1", ctx.site(BORD, fn, wl), "extract_border_cycle: step `(previous, current) = (current, next)` not found",
-                 "the walk must advance both the previous and the current vertex")
+    except Unrecognised as u:
+        H.undecided(ctx, "C15-W1", site, u)
+        H.check_sort_contract(ctx, "C15-W1")
         return
-    if step is not None:
-        prev, cur = (x.id for x in step.targets[0].elts)
-        ok_step = H.is_name(step.value.elts[0], cur) and isinstance(step.value.elts[1], ast.Name) \
-            and step.value.elts[1].id not in (prev, cur)
-        nxt = step.value.elts[1].id if isinstance(step.value.elts[1], ast.Name) else None
-        step_st = step
+    fn, S, wl, lp = F["fn"], F["S"], F["wl"], F["lp"]
+    mesh, start, cur, prev, cand = F["mesh"], F["start"], F["cur"], F["prev"], F["cand"]
+    ssite = ctx.site(BORD, fn0, F["step"])
+    # ---- the step: (previous, current) <- (current, chosen)
+    np_ = F["new_prev"]
+    if H.is_name(np_, cur):
+        ctx.ok("C15-W1", ssite, "step advances (previous, current) together")
+    elif isinstance(np_, ast.Name):
+        ctx.fail("C15-W1", ssite, "extract_border_cycle: the step is not (previous, current) <- (current, chosen neighbour)",
+                 "after the step the previous vertex must be the vertex just left, otherwise the walk may turn back")
     else:
-        prev, cur, nxt = seq[0].targets[0].id, seq[0].value.id, seq[1].value.id
-        ok_step = prev != cur
-        step_st = seq[1]
-    ctx.check(ok_step, "C15-W1", ctx.site(BORD, fn, step_st),
-              "extract_border_cycle: the step is not (previous, current) <- (current, chosen neighbour)",
-              "after the step the previous vertex must be the vertex just left, otherwise the walk may turn back",
-              note="step advances (previous, current) together")
-    loops = [l for l in H.loop_ancestors(step_st, stop=wl) if isinstance(l, ast.For)]
-    lp = loops[0] if loops else None
-    lit = lp.iter if lp is not None else None
-    if isinstance(lit, ast.Call) and au.call_tail(lit) == "reversed" and len(lit.args) == 1:
-        lit = lit.args[0]          # scan direction is judged by the orientation obligation below
-    elif isinstance(lit, ast.Subscript) and isinstance(lit.slice, ast.Slice) and lit.slice.lower is None and lit.slice.upper is None:
-        lit = lit.value
-    ok_lp = lp is not None and H.is_name(lp.target, nxt) and isinstance(lit, ast.Call) \
-        and au.call_tail(lit) == "vertex_to_vertices" and len(lit.args) == 1 and H.is_name(lit.args[0], cur)
-    ctx.check(ok_lp, "C15-W1", ctx.site(BORD, fn, step_st),
-              "extract_border_cycle: the next vertex is not chosen among vertex_to_vertices(current)",
-              "the walk moves along edges of the mesh", note="candidates = neighbours of the current vertex")
-    if not ok_lp:
-        return
-
-    # guard of the step
+        ctx.undecided("C15-W1", ssite, "extract_border_cycle: the new value of the previous vertex is not recognised", "")
+    # ---- candidates
+    dom = F["domain"]
+    if isinstance(dom, ast.Call) and au.call_tail(dom) == "vertex_to_vertices" and len(dom.args) == 1 and isinstance(dom.args[0], ast.Name):
+        ctx.check(dom.args[0].id == cur, "C15-W1", ctx.site(BORD, fn0, lp), "extract_border_cycle: the next vertex is not chosen among vertex_to_vertices(current)",
+                  f"the candidates are the neighbours of `{dom.args[0].id}`: the walk moves along edges of the mesh", note="candidates = neighbours of the current vertex")
+    else:
+        ctx.undecided("C15-W1", ctx.site(BORD, fn0, lp), "extract_border_cycle: the set of candidates for the next vertex is not recognised", "")
+    # ---- the choice condition
     def atom(x, boolean):
-        if isinstance(x, ast.Call) and au.call_tail(x) == "is_vertex_on_border" and len(x.args) == 1 and H.is_name(x.args[0], nxt):
+        if isinstance(x, ast.Call) and au.call_tail(x) == "is_vertex_on_border" and len(x.args) == 1 and H.is_name(x.args[0], cand):
             return H.name("border")
         if isinstance(x, ast.Compare) and len(x.ops) == 1 and isinstance(x.ops[0], (ast.Eq, ast.NotEq)):
             names = {au.src(x.left), au.src(x.comparators[0])}
-            if names == {nxt, prev}:
+            if names == {cand, prev}:
                 n = H.name("same_as_previous")
                 return n if isinstance(x.ops[0], ast.Eq) else ast.UnaryOp(op=ast.Not(), operand=n)
+            if names == {cand, cur}:
+                n = H.name("same_as_current")
+                return n if isinstance(x.ops[0], ast.Eq) else ast.UnaryOp(op=ast.Not(), operand=n)
+        if isinstance(x, ast.Compare) and len(x.ops) == 1 and isinstance(x.ops[0], (ast.In, ast.NotIn)) and H.is_name(x.left, cand) \
+                and au.src(x.comparators[0]) == f"{mesh}.boundary_vertices":
+            n = H.name("border")
+            return n if isinstance(x.ops[0], ast.In) else ast.UnaryOp(op=ast.Not(), operand=n)
         return None
-    ab = H.Abstractor(atom)
-    code = ab.boolean(H.conj([(t, p) for t, p, _ in H.path_condition(step_st, stop=lp)]))
-    try:
-        wit, n = H.compare(code, "border and not same_as_previous") if not ab.unknown else ({"unrecognised": ab.unknown}, 0)
-    except order.Unsupported as ex:
-        wit, n = {"unsupported": str(ex)}, 0
-    ctx.check(wit is None, "C15-W1", ctx.site(BORD, fn, step_st),
-              "extract_border_cycle: a neighbour is chosen under a condition other than `on the border and != previous vertex`",
-              f"differs for {H.fmt_env(wit) if isinstance(wit, dict) else wit}: the walk would leave the border or turn back",
-              note=f"choice guard: {n} assignments agree")
-    # first match wins: a break follows the step in its block
-    blk, _ = au.enclosing_block(step_st)
-    pos = H.block_pos(step_st)
-    ok_brk = blk is not None and any(isinstance(s, ast.Break) for s in blk[pos + 1:])
-    ctx.check(ok_brk, "C15-W1", ctx.site(BORD, fn, step_st), "extract_border_cycle: no `break` after the step",
-              "after the step `previous` has changed, so later neighbours are tested against the wrong vertex and the walk can turn back",
-              note="first admissible neighbour wins (break)")
-
-    # while condition: continue iff current != start (and the safety cap)
+    ab = H.Abs(atom)
+    code = ab.boolean(H.conj(S.conds(F["hit"], stop=lp, keep=(cand, prev, cur))))
+    hsite = ctx.site(BORD, fn0, F["hit"])
+    if ab.unknown:
+        ctx.undecided("C15-W1", hsite, "extract_border_cycle: a condition on the choice of the next vertex is not recognised", f"{ab.unknown}")
+    else:
+        try:
+            wit, n = H.compare(code, "border and not same_as_previous")
+            ctx.check(wit is None, "C15-W1", hsite,
+                      "extract_border_cycle: a neighbour is chosen under a condition other than `on the border and != previous vertex`",
+                      f"differs for {H.fmt_env(wit) if wit else ''}: the walk would leave the border or turn back",
+                      note=f"choice guard: {n} assignments agree")
+        except order.Unsupported as ex:
+            ctx.undecided("C15-W1", hsite, "extract_border_cycle: the choice condition is not a boolean combination of tests", str(ex))
+    if F["layout"] == "in-loop":
+        ctx.check(bool(F["break"]), "C15-W1", ssite, "extract_border_cycle: no `break` after the step",
+                  "after the step `previous` has changed, so later neighbours are tested against the wrong vertex and the walk can turn back",
+                  note="first admissible neighbour wins (break)")
+    else:
+        ctx.check(bool(F["break"]), "C15-W1", hsite, "extract_border_cycle: the search does not stop at the first admissible neighbour",
+                  "without a break the last admissible neighbour is taken: only the first one in scan order is joined by a border edge",
+                  note="first admissible neighbour wins (break)")
+        if F["guard"] == "is-not-none":
+            ctx.ok("C15-W1", ssite, "step only when a neighbour was found")
+        elif F["guard"] == "truthy":
+            ctx.fail("C15-W1", ssite, "extract_border_cycle: the result of the search is tested for truth instead of `is not None`",
+                     "vertex 0 is a valid vertex and is falsy: the walk stalls when the next border vertex is vertex 0")
+        else:
+            ctx.undecided("C15-W1", ssite, "extract_border_cycle: the test that a next vertex was found is not recognised", "")
+    # ---- the walk continues iff current != start (and the safety cap)
     def watom(x, boolean):
         if isinstance(x, ast.Compare) and len(x.ops) == 1 and isinstance(x.ops[0], (ast.Eq, ast.NotEq)) \
                 and {au.src(x.left), au.src(x.comparators[0])} == {cur, start}:
             n = H.name("back_at_start")
             return n if isinstance(x.ops[0], ast.Eq) else ast.UnaryOp(op=ast.Not(), operand=n)
-        if isinstance(x, ast.Compare) and len(x.ops) == 1 and isinstance(x.ops[0], (ast.Lt, ast.LtE)) and isinstance(x.left, ast.Name) \
-                and H.increments_in(wl, x.left.id):
-            return H.name("under_cap")
-        if isinstance(x, ast.Compare) and len(x.ops) == 1 and isinstance(x.ops[0], (ast.Gt, ast.GtE)) and isinstance(x.comparators[0], ast.Name) \
-                and H.increments_in(wl, x.comparators[0].id):
-            return H.name("under_cap")          # `cap > counter`
+        if isinstance(x, ast.Compare) and len(x.ops) == 1 and isinstance(x.ops[0], (ast.Eq, ast.NotEq)) \
+                and {au.src(x.left), au.src(x.comparators[0])} == {prev, start}:
+            n = H.name("previous_at_start")
+            return n if isinstance(x.ops[0], ast.Eq) else ast.UnaryOp(op=ast.Not(), operand=n)
+        if isinstance(x, ast.Compare) and len(x.ops) == 1 and isinstance(x.ops[0], (ast.Lt, ast.LtE, ast.Gt, ast.GtE)):
+            sides = [x.left, x.comparators[0]]
+            for a, b, lt in ((sides[0], sides[1], isinstance(x.ops[0], (ast.Lt, ast.LtE))), (sides[1], sides[0], isinstance(x.ops[0], (ast.Gt, ast.GtE)))):
+                if isinstance(a, ast.Name) and H.increments_in(wl, a.id) and a.id not in au.names(b):
+                    n = H.name("under_cap")
+                    return n if lt else ast.UnaryOp(op=ast.Not(), operand=n)
         return None
-    ab = H.Abstractor(watom)
-    code = ab.boolean(wl.test)
-    try:
-        wit, n = H.compare(code, "not back_at_start and under_cap") if not ab.unknown else ({"unrecognised": ab.unknown}, 0)
-        if wit is not None and not ab.unknown:
-            wit, n = H.compare(code, "not back_at_start")
-    except order.Unsupported as ex:
-        wit, n = {"unsupported": str(ex)}, 0
-    ctx.check(wit is None, "C15-W1", ctx.site(BORD, fn, wl), "extract_border_cycle: the walk does not run `while current != starting_point`",
-              f"differs for {H.fmt_env(wit) if isinstance(wit, dict) else wit}: the cycle must close exactly at the starting vertex",
-              note="walk stops on return to the start")
-    # records
-    def appends(body, direct=True):
-        out = []
-        for s in body:
-            if isinstance(s, ast.Expr) and isinstance(s.value, ast.Call) and isinstance(s.value.func, ast.Attribute) \
-                    and s.value.func.attr == "append" and isinstance(s.value.func.value, ast.Name) and len(s.value.args) == 1:
-                out.append((s.value.func.value.id, s.value.args[0], s))
-        return out
-    rets = [r for r in au.walk(fn) if isinstance(r, ast.Return) and isinstance(r.value, ast.Tuple) and len(r.value.elts) == 2
-            and all(isinstance(x, ast.Name) for x in r.value.elts)]
-    if len(rets) != 1:
-        ctx.fail("C15-W1", site, "extract_border_cycle: `return vertices, edges` not found", "")
-        return
-    vl, el = (x.id for x in rets[0].value.elts)
-
-    def is_edge(x, a, b):
-        return isinstance(x, ast.Call) and au.call_tail(x) == "edge_id" and len(x.args) == 2 and \
-            {au.src(x.args[0]), au.src(x.args[1])} == {a, b}
-    inloop = appends(wl.body)
-    vrec = [a for a in inloop if a[0] == vl]
-    erec = [a for a in inloop if a[0] == el]
-    lp_top = H.top_stmt_in(wl.body, lp)
-    ok_rec = len(vrec) == 1 and len(erec) == 1 and H.is_name(vrec[0][1], cur) and is_edge(erec[0][1], prev, cur) \
-        and lp_top is not None and H.block_pos(vrec[0][2]) < H.block_pos(lp_top) and H.block_pos(erec[0][2]) < H.block_pos(lp_top)
-    ctx.check(ok_rec, "C15-W1", ctx.site(BORD, fn, wl),
-              "extract_border_cycle: a step does not record the current vertex and the edge (previous, current) before moving on",
-              "vertex list and edge list must describe the same closed walk", note="each step records vertex and edge")
-    after = appends(fn.body[H.block_pos(wl) + 1:])
-    ok_close = any(a[0] == el and is_edge(a[1], prev, cur) for a in after)
-    ctx.check(ok_close, "C15-W1", site, "extract_border_cycle: closing edge (previous, current) not appended after the walk",
-              "the edge list of a loop with n vertices has n edges", note="closing edge appended")
-    init = [s for s in fn.body if isinstance(s, ast.Assign) and s.lineno < wl.lineno]
-    b = sym.Bindings(fn)
-    v0 = b.reaching(vl, wl)
-    p0 = b.resolve(ast.Name(id=prev, ctx=ast.Load()), at=wl)
-    c0 = b.resolve(ast.Name(id=cur, ctx=ast.Load()), at=wl, keep=(start,))
-    ok_init = isinstance(v0, ast.List) and len(v0.elts) == 1 and H.is_name(v0.elts[0], start) and H.is_name(p0, start) \
-        and isinstance(c0, ast.Subscript) and isinstance(c0.value, ast.Call) and au.call_tail(c0.value) == "vertex_to_vertices" \
-        and len(c0.value.args) == 1 and H.is_name(c0.value.args[0], start)
-    ctx.check(ok_init, "C15-W1", site, "extract_border_cycle: the walk does not start as vertices=[start], previous=start, current=a neighbour of start",
-              "", note="walk initialised at the starting vertex")
-    H.check_walk_orientation(ctx, "C15-W1", BORD, fn)
+    ab = H.Abs(watom)
+    vst = au.enclosing_stmt(F["vrec"])
+    raw = H.path_condition(vst, stop=wl)
+    code = ab.boolean(H.conj([(t, p) for t, p, _ in raw]))
+    wsite = ctx.site(BORD, fn0, wl)
+    if ab.unknown:
+        ctx.undecided("C15-W1", wsite, "extract_border_cycle: a condition of the walk loop is not recognised", f"{ab.unknown}")
+    else:
+        try:
+            wit, n = H.compare(code, "not back_at_start and under_cap")
+            if wit is not None:
+                wit, n = H.compare(code, "not back_at_start")
+            ctx.check(wit is None, "C15-W1", wsite, "extract_border_cycle: the walk does not run `while current != starting_point`",
+                      f"differs for {H.fmt_env(wit) if wit else ''}: the cycle must close exactly at the starting vertex",
+                      note="walk stops on return to the start")
+        except order.Unsupported as ex:
+            ctx.undecided("C15-W1", wsite, "extract_border_cycle: the loop condition is not a boolean combination of tests", str(ex))
+    # ---- records come before the move, on the same path
+    est = au.enclosing_stmt(F["erec"])
+    tv, te, tl = (H.top_stmt_in(wl.body, z) for z in (vst, est, lp))
+    same_path = [au.norm(t) + str(p) for t, p, _ in H.path_condition(est, stop=wl)] == [au.norm(t) + str(p) for t, p, _ in raw]
+    e0 = S.canon(ast.Name(id=F["el"], ctx=ast.Load()), wl, keep=(start,))
+    edges_start_empty = isinstance(e0, ast.List) and not e0.elts
+    if tv is None or te is None or tl is None or not same_path or not edges_start_empty:
+        ctx.undecided("C15-W1", wsite, "extract_border_cycle: the place where a step records its vertex and edge is not recognised", "")
+    else:
+        ctx.check(H.block_pos(tv) < H.block_pos(tl) and H.block_pos(te) < H.block_pos(tl), "C15-W1", wsite,
+                  "extract_border_cycle: a step does not record the current vertex and the edge (previous, current) before moving on",
+                  "vertex list and edge list must describe the same closed walk", note="each step records vertex and edge")
+    # ---- closing edge
+    wtop = H.top_stmt_in(fn.body, wl)
+    closing = False
+    if wtop is not None:
+        for s in fn.body[H.block_pos(wtop) + 1:]:
+            for c in au.calls(s):
+                if au.call_tail(c) == "append" and isinstance(c.func, ast.Attribute) and H.is_name(c.func.value, F["el"]) and len(c.args) == 1:
+                    ec = S.canon(c.args[0], c)
+                    if isinstance(ec, ast.Call) and au.call_tail(ec) == "edge_id" and {au.src(a) for a in ec.args} == {prev, cur} and any(s is z for z in fn.body):
+                        closing = True
+    later_appends = [c for s in (fn.body[H.block_pos(wtop) + 1:] if wtop is not None else []) for c in au.calls(s)
+                     if au.call_tail(c) in ("append", "extend", "insert") and isinstance(c.func, ast.Attribute) and H.is_name(c.func.value, F["el"])]
+    if closing:
+        ctx.ok("C15-W1", site, "closing edge appended")
+    elif wtop is not None and not later_appends and any(F["ret"] is z for z in fn.body) and edges_start_empty \
+            and tv is not None and te is not None and tl is not None and H.block_pos(te) < H.block_pos(tl):
+        ctx.fail("C15-W1", site, "extract_border_cycle: closing edge (previous, current) not appended after the walk",
+                 "the edge list only receives the edge of each step: a loop with n vertices has n edges")
+    else:
+        ctx.undecided("C15-W1", site, "extract_border_cycle: the statement appending the closing edge (previous, current) after the walk is not recognised", "")
+    # ---- initial state
+    v0 = S.canon(ast.Name(id=F["vl"], ctx=ast.Load()), wl, keep=(start,))
+    p0 = S.canon(ast.Name(id=prev, ctx=ast.Load()), wl, keep=(start,))
+    first = H.walk_first(F)
+    if isinstance(v0, ast.List) and len(v0.elts) == 1 and H.is_name(v0.elts[0], start) and H.is_name(p0, start) and first is not None:
+        ctx.ok("C15-W1", site, "walk initialised at the starting vertex")
+    else:
+        ctx.undecided("C15-W1", site, "extract_border_cycle: the initial state vertices=[start], previous=start, current=a neighbour of start is not recognised", "")
+    H.check_walk_orientation(ctx, "C15-W1")
     H.check_sort_contract(ctx, "C15-W1")
-    fl.require(8)
 
 
 # =========================================================================== corner orders
 def k1_corners(ctx):
-    fn = ctx.repo.func(FEAT, f"{DET}._flag_corners")
-    site = ctx.site(FEAT, fn)
-    fl = H.Floor(ctx, "C15-K1")
+    fn0 = ctx.repo.func(FEAT, f"{DET}._flag_corners")
+    site = ctx.site(FEAT, fn0)
+    fn, S, nz = H.norm_fn(ctx, FEAT, f"{DET}._flag_corners")
     mesh = (au.params(fn, skip_self=True) or ["mesh"])[0]
-    loops = [s for s in fn.body if isinstance(s, ast.For) and au.is_self_attr(s.iter, "feature_vertices") and isinstance(s.target, ast.Name)]
+    stores = [(s, t, v) for s, t, v in H.subscript_stores(fn, lambda x: True) if au.is_self_attr(t.value, "corners")]
+    loops = []
+    for s, t, v in stores:
+        for lp in H.for_ancestors(s, stop=fn):
+            elem, idx, seq, start = H.loop_elem(lp)
+            if idx is None and isinstance(elem, ast.Name) and au.is_self_attr(S.canon(seq, lp), "feature_vertices") and all(lp is not z for z in loops):
+                loops.append(lp)
     if len(loops) != 1:
-        ctx.fail("C15-K1", site, "_flag_corners: loop over self.feature_vertices not found", "")
+        ctx.undecided("C15-K1", site, "_flag_corners: the loop over self.feature_vertices that stores self.corners[v] is not recognised", "")
         return
     lp = loops[0]
     v = lp.target.id
-    # accumulation: acc += angles[c], c = vertex_to_corner_in_face(v, T), T in vertex_to_faces(v)
-    b = sym.Bindings(fn)
+    lsite = ctx.site(FEAT, fn0, lp)
+    # the rounded value(s)
+    leaves = []
+    for s, t, val in stores:
+        if not H.is_name(t.slice, v) or val is None:
+            ctx.undecided("C15-K1", ctx.site(FEAT, fn0, s), "_flag_corners: a store into self.corners is not keyed by the feature vertex", "")
+            return
+        for cs, leaf in hj_scope.ifexp_leaves(S.canon(val, s, keep=(v,))):
+            leaves.append((s, leaf))
+    def unwrap(l):
+        while isinstance(l, ast.Call) and au.call_tail(l) in ("int", "float") and len(l.args) == 1 and isinstance(l.args[0], ast.Call) \
+                and au.call_tail(l.args[0]) in ("round", "rint", "around", "int"):
+            l = l.args[0]
+        return l
+    leaves = [(s, unwrap(l)) for s, l in leaves]
+    rounds = [(s, l) for s, l in leaves if isinstance(l, ast.Call) and au.call_tail(l) in ("round", "int", "rint", "around", "floor", "ceil", "trunc") and l.args]
+    if len(rounds) != 1:
+        ctx.undecided("C15-K1", lsite, "_flag_corners: the store `self.corners[v] = round(...)` is not recognised", "")
+        return
+    s, call = rounds[0]
+    if au.call_tail(call) not in ("round", "rint", "around"):
+        ctx.fail("C15-K1", ctx.site(FEAT, fn0, s), "_flag_corners: corner order is not round(angle * corner_order / (2*pi))",
+                 f"the quotient is truncated by `{au.call_tail(call)}` instead of rounded to the nearest integer")
+        return
+    # accumulator: a name that is += angles[corner(v, T)] for T in vertex_to_faces(v)
     acc = None
-    ok_acc = False
-    for s in au.stmts(lp.body):
-        if isinstance(s, ast.For) and isinstance(s.iter, ast.Call) and au.call_tail(s.iter) == "vertex_to_faces" \
-                and len(s.iter.args) == 1 and H.is_name(s.iter.args[0], v) and isinstance(s.target, ast.Name):
-            T = s.target.id
-            for q in s.body:
-                if isinstance(q, ast.AugAssign) and isinstance(q.op, ast.Add) and isinstance(q.target, ast.Name) and q in s.body:
-                    val = b.resolve(q.value, at=q, keep=(v, T))
-                    if isinstance(val, ast.Subscript) and isinstance(val.slice, ast.Call) and au.call_tail(val.slice) == "vertex_to_corner_in_face" \
-                            and [au.src(a) for a in val.slice.args] == [v, T]:
-                        angles = b.resolve(val.value, at=q)
-                        if isinstance(angles, ast.Call) and au.call_tail(angles) == "corner_angles" and angles.args \
-                                and H.is_name(angles.args[0], mesh):
-                            acc = q.target.id
-                            pos_loop = H.block_pos(s)
-                            init = [z for z in lp.body[:pos_loop] if isinstance(z, ast.Assign) and any(H.is_name(t, acc) for t in z.targets)]
-                            ok_acc = len(init) >= 1 and au.const(init[-1].value) in (0, 0.0) and s in lp.body
-    ctx.check(ok_acc, "C15-K1", ctx.site(FEAT, fn, lp),
-              "_flag_corners: the angle of a vertex is not the sum, from 0, of corner_angles[vertex_to_corner_in_face(v, T)] over vertex_to_faces(v)",
-              "the corner order derives from the total angle around the feature vertex", note="angle = sum of the corner angles at v")
-    if not ok_acc:
+    acc_ok = False
+    angle_defs = None
+    for q in au.stmts(lp.body):
+        inc = au.increment(q)
+        if inc is None or inc[1] != 1:
+            continue
+        tgt = q.target if isinstance(q, ast.AugAssign) else q.targets[0]
+        if not isinstance(tgt, ast.Name):
+            continue
+        ils = H.for_ancestors(q, stop=lp)
+        if len(ils) != 1:
+            continue
+        elem, idx, seq, start = H.loop_elem(ils[0])
+        seqc = S.canon(seq, ils[0], keep=(v,))
+        if not (idx is None and isinstance(elem, ast.Name) and isinstance(seqc, ast.Call) and au.call_tail(seqc) == "vertex_to_faces"
+                and len(seqc.args) == 1 and H.is_name(seqc.args[0], v)):
+            continue
+        T = elem.id
+        val = S.canon(inc[2], q, keep=(v, T))
+        if isinstance(val, ast.Subscript) and isinstance(val.slice, ast.Call) and au.call_tail(val.slice) == "vertex_to_corner_in_face" \
+                and [au.src(a) for a in val.slice.args] == [T, v]:
+            ctx.fail("C15-K1", ctx.site(FEAT, fn0, q), "_flag_corners: vertex_to_corner_in_face is called with (face, vertex) instead of (vertex, face)",
+                     "the corner looked up is not the corner of the feature vertex in the incident face")
+            return
+        if isinstance(val, ast.Subscript) and isinstance(val.slice, ast.Call) and au.call_tail(val.slice) == "vertex_to_corner_in_face" \
+                and [au.src(a) for a in val.slice.args] == [v, T] and not H.path_condition(q, stop=ils[0]):
+            acc = tgt.id
+            angle_defs = [leaf for cs, leaf in hj_scope.ifexp_leaves(val.value)]
+            init = S.value(acc, ils[0], keep=(v,))
+            acc_ok = init is not None and au.const(init) in (0, 0.0) and any(ils[0] is z for z in lp.body)
+            if init is None and not any(isinstance(z, ast.Assign) and any(H.is_name(t, acc) for t in z.targets) for z in au.stmts(lp.body)) \
+                    and au.const(S.value(acc, lp)) in (0, 0.0) and S.value(acc, lp) is not None:
+                ctx.fail("C15-K1", ctx.site(FEAT, fn0, lp), "_flag_corners: the sum of the corner angles is initialised once before the loop over the feature vertices",
+                         "the angle of a vertex then includes the angles of all vertices visited before it")
+                return
+    if acc is None:
+        ctx.undecided("C15-K1", lsite, "_flag_corners: the accumulation of the corner angles around a feature vertex is not recognised", "")
         return
-    stores = [(s, t, val) for s, t, val in H.subscript_stores(lp.body, lambda x: au.is_self_attr(x, "corners"))]
-    main = [(s, t, val) for s, t, val in stores if isinstance(val, ast.Call) and au.call_tail(val) == "round" and val.args]
-    if len(main) != 1:
-        ctx.fail("C15-K1", ctx.site(FEAT, fn, lp), "_flag_corners: store `self.corners[v] = round(...)` not found", "")
+    stale = [d for d in angle_defs if isinstance(d, ast.Call) and au.call_tail(d) == "get_attribute"]
+    fresh = [d for d in angle_defs if isinstance(d, ast.Call) and au.call_tail(d) == "corner_angles" and d.args and H.is_name(d.args[0], mesh)]
+    if stale:
+        ctx.fail("C15-K1", lsite, "_flag_corners: the corner angles are read back from an attribute stored on the mesh instead of being computed on this run",
+                 "corner_angles stores a persistent 'angles' attribute by default and nothing invalidates it when vertices move: the corner orders are "
+                 "then derived from the angles of an older geometry while the feature edges follow the current one")
+    elif len(fresh) == len(angle_defs) and acc_ok:
+        ctx.ok("C15-K1", lsite, "angle = sum of the corner angles at v, computed by corner_angles")
+    else:
+        ctx.undecided("C15-K1", lsite, "_flag_corners: the origin of the summed angles / the initial value of the sum is not recognised", "")
+    arg = S.canon(call.args[0], s, keep=(v, acc))
+    arg = hj_scope.fold_defaults(arg, ctx.repo, FEAT, DET) if False else arg
+    p = _poly_tau(arg)
+    want = sym.Poly({tuple(sorted((acc, "<self.corner_order>"))): Fraction(1 / (2 * math.pi)).limit_denominator(10 ** 9)})
+    if acc not in p.atoms():
+        ctx.undecided("C15-K1", ctx.site(FEAT, fn0, s), "_flag_corners: the rounded quantity does not involve the summed angle", "")
         return
-    s, t, val = main[0]
-    p = H.poly(val.args[0], env={})
-    want = sym.Poly({tuple(sorted((acc, "<self.corner_order>"))): Fraction_of(1 / (2 * math.pi))})
-    ok = H.is_name(t.slice, v) and H.approx_eq(p, want, 1e-7)
-    ctx.check(ok, "C15-K1", ctx.site(FEAT, fn, s), "_flag_corners: corner order is not round(angle * corner_order / (2*pi))",
-              f"an angle of k * 2pi/corner_order must get order k; found `{au.src(val.args[0])}`",
-              note="corners[v] = round(angle * corner_order / 2pi)")
-    fl.require(2)
+    if H.approx_eq(p, want, 1e-7):
+        ctx.ok("C15-K1", ctx.site(FEAT, fn0, s), "corners[v] = round(angle * corner_order / 2pi)")
+    elif len(p.t) == 1 and set(p.atoms()) <= {acc, "<self.corner_order>"}:
+        ctx.fail("C15-K1", ctx.site(FEAT, fn0, s), "_flag_corners: corner order is not round(angle * corner_order / (2*pi))",
+                 f"an angle of k * 2pi/corner_order must get order k; found `{au.src(call.args[0])}`")
+    else:
+        # e.g. a quotient by a pre-computed quantum: try numerically with the default corner order
+        ok_num = None
+        try:
+            co = hj_scope.fold(hj_scope.attr_default(ctx.repo, FEAT, DET, "corner_order"))
+            env = {a: (1.0 if a == acc else float(co)) for a in p.atoms() if a in (acc, "<self.corner_order>")}
+            if co and set(env) == set(p.atoms()):
+                ok_num = abs(float(p.eval(env)) - co / (2 * math.pi)) < 1e-9
+        except Exception:
+            ok_num = None
+        if ok_num:
+            ctx.ok("C15-K1", ctx.site(FEAT, fn0, s), "corners[v] = round(angle * corner_order / 2pi) (numerically, default corner order)")
+        else:
+            ctx.undecided("C15-K1", ctx.site(FEAT, fn0, s), "_flag_corners: the quantity that is rounded is not recognised as angle * corner_order / (2*pi)", "")
 
 
-def Fraction_of(x):
-    from fractions import Fraction
-    return Fraction(x).limit_denominator(10 ** 9)
+def _poly_tau(e):
+    """H.poly with tau folded"""
+    class T(ast.NodeTransformer):
+        def visit_Name(self, n):
+            return ast.Constant(value=math.tau) if n.id == "tau" else n
 
-
+        def visit_Attribute(self, n):
+            self.generic_visit(n)
+            c = au.chain(n)
+            return ast.Constant(value=math.tau) if c and c[-1] == "tau" and c[0] in ("math", "np", "numpy") else n
+    return H.poly(T().visit(sym.clone(e)))
 # =========================================================================== geometry caches
 def g1_geometry_cache(ctx):
     repo = ctx.repo
@@ -1064,5 +1750,5 @@ def g1_geometry_cache(ctx):
                       "applies the thresholds to the normals / angles of the old geometry",
                       note=f"{fn.name}: {au.call_tail(c)} not persisted under a reused name (persistent={facts['persistent']})")
     if n == 0:
-        ctx.fail("C15-G1", ctx.site(FEAT, repo.func(FEAT, f"{DET}.run")), "FeatureEdgeDetector: computation of the face normals / corner angles not found",
-                 "no call of a mouette.attributes function with a `persistent` parameter is left in the detector")
+        ctx.undecided("C15-G1", ctx.site(FEAT, repo.func(FEAT, f"{DET}.run")), "FeatureEdgeDetector: computation of the face normals / corner angles not recognised",
+                      "no call of a mouette.attributes function with a `persistent` parameter is found in the detector")
